@@ -291,9 +291,24 @@ Lemma print_app a b : print (a ++ b) = print a ++ print b.
 Proof. induction a as [|x a IH]; [reflexivity|]. cbn [app print]. now rewrite IH, app_assoc. Qed.
 Lemma print_group b : print_node (NGroup b) = bg :: print b ++ [eg].
 Proof. reflexivity. Qed.
-Lemma print_def0 g nm b :
+(* on F1 (no parameters, no nested parameter text) body mode and top mode print the same *)
+Lemma printb_F1 : (forall n, F1n n -> printb_node n = print_node n) /\ (forall l, F1l l -> printb l = print l).
+Proof.
+  apply F1_mutind.
+  - reflexivity.
+  - intros b _ IH. change (printb_node (NGroup b)) with (bg :: printb b ++ [eg]). now rewrite IH.
+  - reflexivity.
+  - reflexivity.
+  - intros t th el _ _ IHth _ IHel.
+    change (printb_node (NCond t th el)) with (print_test t ++ printb th ++ match el with Some e => esc s_else :: printb e | None => [] end ++ [esc s_fi]).
+    change (print_node (NCond t th el)) with (print_test t ++ print th ++ match el with Some e => esc s_else :: print e | None => [] end ++ [esc s_fi]).
+    rewrite IHth. destruct el as [e|]; [now rewrite (IHel e eq_refl)|reflexivity].
+  - reflexivity.
+  - intros n r _ IHn _ IHr. cbn [print printb]. now rewrite IHn, IHr.
+Qed.
+Lemma print_def0 g nm b : F1l b ->
   print_node (NDef g nm O None b) = esc (if g then s_gdef else s_def) :: esc (mname nm) :: bg :: print b ++ [eg].
-Proof. reflexivity. Qed.
+Proof. intros Hb. rewrite <- (proj2 printb_F1 b Hb). reflexivity. Qed.
 Lemma print_call0 nm : print_node (NCall nm None []) = [esc (mname nm)].
 Proof. reflexivity. Qed.
 Lemma print_cond t th el :
@@ -383,7 +398,7 @@ Proof.
   - intros w k. apply walks_wprint.
   - intros b _ IH k. rewrite print_group. change (bg :: ?l) with ([bg] ++ l).
     eapply walks_app; [apply walks_tok; reflexivity|]. eapply walks_app; [apply IH|apply walks_tok; reflexivity].
-  - intros g nm b _ IH k. rewrite print_def0.
+  - intros g nm b Hb IH k. rewrite (print_def0 g nm b Hb).
     change (?a :: ?b' :: bg :: ?l) with ([a; b'; bg] ++ l).
     eapply walks_app.
     + apply walks_toks. constructor; [destruct g; reflexivity|]. constructor; [reflexivity|]. constructor; [reflexivity|constructor].
@@ -441,7 +456,7 @@ Proof.
   - intros w d. apply depth_flat, flat_wprint.
   - intros b _ IH d. rewrite print_group. cbn [depth_after]. change (is_bgroup bg) with true. cbn iota.
     rewrite depth_after_app, IH. reflexivity.
-  - intros g nm b _ IH d. rewrite print_def0. cbn [depth_after].
+  - intros g nm b Hb IH d. rewrite (print_def0 g nm b Hb). cbn [depth_after].
     replace (is_bgroup (esc (if g then s_gdef else s_def))) with false by (destruct g; reflexivity).
     replace (is_egroup (esc (if g then s_gdef else s_def))) with false by (destruct g; reflexivity).
     change (is_bgroup (esc (mname nm))) with false. change (is_egroup (esc (mname nm))) with false.
@@ -707,6 +722,27 @@ Proof.
   rewrite app_nil_r, rev_involutive. rewrite has_nested_param_text. reflexivity.
 Qed.
 
+(* \def\zq..##1..##n{body} (n >= 1): the parameter text is "nested", \def removes one level of # from it and from the body *)
+Lemma is_bgroup_param_text2 i n : Forall (fun t => is_bgroup t = false) (flat_map (fun i => [hash_tok; hash_tok; other (48 + N.of_nat i)]) (seq i n)).
+Proof. revert i. induction n as [|n IH]; intros i; cbn [seq flat_map app]; [constructor|]. constructor; [reflexivity|]. constructor; [reflexivity|]. constructor; [reflexivity|apply IH]. Qed.
+Lemma has_nested_param_text2 i n : (1 <= n)%nat -> has_nested (flat_map (fun i => [hash_tok; hash_tok; other (48 + N.of_nat i)]) (seq i n)) = true.
+Proof. intros H. destruct n as [|n]; [lia|]. cbn [seq flat_map app has_nested]. change (is_param hash_tok) with true. reflexivity. Qed.
+Lemma ros_param_text2 np rest : read_optional_spaces (param_text2 np ++ bg :: rest) = param_text2 np ++ bg :: rest.
+Proof. destruct np; reflexivity. Qed.
+Lemma def_invoke_text2 gl nm np body tl U B : (1 <= np)%nat -> depth_after body O = Some O ->
+  def_invoke gl (St (esc (mname nm) :: param_text2 np ++ bg :: body ++ eg :: tl) U B)
+  = Ret (push_tok (prim_elem (PDef gl))
+           ((if gl then add_global else add_local) (mname nm) (MDef (reduce_hashes (param_text2 np) O []) (reduce_hashes body O [])) (St tl U B))).
+Proof.
+  intros Hnp Hb. unfold def_invoke, ros. cbn [input read_optional_spaces].
+  change (is_space (esc (mname nm))) with false. cbn iota. unfold set_input. cbn [input ups bottom].
+  rewrite ros_param_text2. unfold param_text2. rewrite (read_args_nobg _ [] _ (is_bgroup_param_text2 1 np)). cbn [rev app input ups bottom read_optional_spaces].
+  change (is_space bg) with false. cbn iota.
+  unfold read_token. change (is_bgroup bg) with true. cbn iota.
+  rewrite (read_group_app body O [] (eg :: tl) O Hb). cbn [read_group]. change (is_bgroup eg) with false. change (is_egroup eg) with true. cbn iota.
+  rewrite app_nil_r, rev_involutive. rewrite (has_nested_param_text2 1 np Hnp). reflexivity.
+Qed.
+
 (* ---------------------------------------------------------------------------------------------- *)
 (* the invariant: frames of the reference evaluator <-> frames of the engine's context              *)
 
@@ -880,18 +916,18 @@ Lemma good_new b : F1l b -> good {| m_n := O; m_default := None; m_body := b |}.
 Proof. intros H. repeat split. exact H. Qed.
 
 Lemma mean_of_good m : good m -> mean_of m = MDef [] (print (m_body m)).
-Proof. intros (H & Hd & _). unfold mean_of. now rewrite H, Hd. Qed.
+Proof. intros (H & Hd & Hb). unfold mean_of. now rewrite H, Hd, (proj2 printb_F1 _ Hb). Qed.
 
 Lemma Rf_def_local fs U B nm b : F1l b -> Rf fs U B ->
   let m := {| m_n := O; m_default := None; m_body := b |} in
   let st := add_local (mname nm) (MDef [] (print b)) {| input := []; ups := U; bottom := B |} in
   Rf (def_local nm m fs) (ups st) (bottom st).
-Proof. intros Hb HR. exact (Rfg_def_local good fs U B nm _ (good_new b Hb) HR). Qed.
+Proof. intros Hb HR. pose proof (Rfg_def_local good fs U B nm _ (good_new b Hb) HR) as H. unfold mean_of in H. cbn [m_default m_n m_body] in H. now rewrite (proj2 printb_F1 b Hb) in H. Qed.
 
 Lemma Rf_def_global fs U B nm b : F1l b -> unshadowed nm fs = true -> Rf fs U B ->
   let m := {| m_n := O; m_default := None; m_body := b |} in
   Rf (def_global nm m fs) U ((mname nm, MDef [] (print b)) :: B).
-Proof. intros Hb Hun HR. exact (Rfg_def_global good fs U B nm _ (good_new b Hb) Hun HR). Qed.
+Proof. intros Hb Hun HR. pose proof (Rfg_def_global good fs U B nm _ (good_new b Hb) Hun HR) as H. unfold mean_of in H. cbn [m_default m_n m_body] in H. now rewrite (proj2 printb_F1 b Hb) in H. Qed.
 
 (* ---------------------------------------------------------------------------------------------- *)
 (* unfolding equations of the reference evaluator and of the side condition                         *)
@@ -1028,6 +1064,21 @@ Proof.
     subst i. unfold push_tok, set_input. cbn [input ups bottom].
     eapply (ex_yield O); [apply step_elem; destruct gl; reflexivity|apply ex_refl].
 Qed.
+Lemma exec_def2 fs U B (gl : bool) nm np body r : Rfg G fs U B -> (1 <= np)%nat -> depth_after body O = Some O ->
+  let st := (if gl then add_global else add_local) (mname nm) (MDef (reduce_hashes (param_text2 np) O []) (reduce_hashes body O [])) (St r U B) in
+  exec (St (esc (if gl then s_gdef else s_def) :: esc (mname nm) :: param_text2 np ++ bg :: body ++ eg :: r) U B) [prim_elem (PDef gl)] st.
+Proof.
+  intros HR Hnp Hb st. eapply (ex_cont O).
+  - rewrite (step_macro _ _ _ (if gl then s_gdef else s_def) (MPrim (PDef gl))).
+    + cbn [invoke]. rewrite (def_invoke_text2 gl nm np body r U B Hnp Hb). reflexivity.
+    + destruct gl; reflexivity.
+    + destruct gl; reflexivity.
+    + apply (prim_lookupg G fs); [exact HR|destruct gl; not_mname|destruct gl; reflexivity].
+  - fold st. destruct st as [i U' B'] eqn:E.
+    assert (Hi : i = r) by (subst st; destruct gl; unfold add_global, add_local, set_bottom, set_ups in E; cbn in E; [|destruct U]; inversion E; reflexivity).
+    subst i. unfold push_tok, set_input. cbn [input ups bottom].
+    eapply (ex_yield O); [apply step_elem; destruct gl; reflexivity|apply ex_refl].
+Qed.
 Lemma exec_call U B nm body r : chain_get U B (mname nm) = Some (MDef [] body) ->
   exec (St (esc (mname nm) :: r) U B) [] (St (body ++ r) U B).
 Proof.
@@ -1135,7 +1186,7 @@ Proof.
   - (* definition *)
     rewrite (eval_def f e out ns budget Hs) in Hev. rewrite (gsafe_def f e out ns budget Hs) in Hgs.
     apply andb_true_iff in Hgs as [Hun Hg2].
-    rewrite print_def0. cbn [app]. rewrite <- app_assoc. cbn [app].
+    rewrite (print_def0 g nm b Hb). cbn [app]. rewrite <- app_assoc. cbn [app].
     pose proof (exec_def good _ U B g nm O (print b) (print ns ++ rest) HR1 (proj2 depth_print b Hb O)) as Hex0. cbv zeta in Hex0.
     change (param_text O) with (@nil tok) in Hex0. cbn [app] in Hex0.
     set (st := (if g then add_global else add_local) (mname nm) (MDef [] (print b)) (St (print ns ++ rest) U B)) in *.
@@ -1264,7 +1315,7 @@ Qed.
 (* the token shape shared by all fragments: what the scanners need *)
 Fixpoint w_node (x : node) : bool :=
   match x with
-  | NWord _ | NParam _ | NLet _ _ | NNewSwitch _ | NSetSwitch _ _ | NStep _ | NSetC _ _ | NAddC _ _ => true
+  | NWord _ | NParam _ | NParam2 _ | NExpandAfter _ _ | NLet _ _ | NNewSwitch _ | NSetSwitch _ _ | NStep _ | NSetC _ _ | NAddC _ _ => true
   | NGroup b => forallb w_node b
   | NDef _ _ _ d b => opt_ok d && forallb w_node b
   | NCall _ o a => opt_ok o && forallb (forallb w_node) a
@@ -1285,12 +1336,12 @@ Proof. destruct bs as [|b0 r]; [discriminate|]. cbn. eauto. Qed.
 Fixpoint print_args (l : list (list node)) : list tok :=
   match l with [] => [] | a :: r => bg :: print a ++ eg :: print_args r end.
 Lemma print_def g nm np b :
-  print_node (NDef g nm np None b) = esc (if g then s_gdef else s_def) :: esc (mname nm) :: param_text np ++ bg :: print b ++ [eg].
+  print_node (NDef g nm np None b) = esc (if g then s_gdef else s_def) :: esc (mname nm) :: param_text np ++ bg :: printb b ++ [eg].
 Proof. reflexivity. Qed.
 Lemma print_newcommand g nm np d b :
   print_node (NDef g nm np (Some d) b) =
   esc s_newcommand :: bg :: esc (mname nm) :: eg :: lbr :: map other (digits (N.of_nat (S np))) ++ rbr :: lbr :: print d ++ rbr ::
-  bg :: print b ++ [eg].
+  bg :: printb b ++ [eg].
 Proof. reflexivity. Qed.
 Definition opt_toks (o : option (list node)) : list tok := match o with Some x => lbr :: print x ++ [rbr] | None => [] end.
 Lemma print_call nm o a : print_node (NCall nm o a) = esc (mname nm) :: opt_toks o ++ print_args a.
@@ -1368,8 +1419,223 @@ Proof.
   rewrite depth_after_app, (depth_words x d H). reflexivity.
 Qed.
 
+Lemma flat_param_text i n : Forall flat (flat_map (fun i => [hash_tok; other (48 + N.of_nat i)]) (seq i n)).
+Proof.
+  revert i. induction n as [|n IH]; intros i; cbn [seq flat_map app]; [constructor|].
+  constructor; [split; reflexivity|]. constructor; [split; reflexivity|apply IH].
+Qed.
 Lemma walks_or k : walks [esc s_or] (S k) (S k).
 Proof. intros tl cur done els. reflexivity. Qed.
+(* ---- body mode (printb): the same shape lemmas as for top mode ---- *)
+Definition else_partb (el : option (list node)) : list tok :=
+  match el with Some e => esc s_else :: printb e | None => [] end.
+Lemma walks_param_text2 i n k : walks (flat_map (fun i => [hash_tok; hash_tok; other (48 + N.of_nat i)]) (seq i n)) k k.
+Proof.
+  apply walks_toks. revert i. induction n as [|n IH]; intros i; cbn [seq flat_map app]; [constructor|].
+  constructor; [reflexivity|]. constructor; [reflexivity|]. constructor; [reflexivity|apply IH].
+Qed.
+Lemma flat_param_text2 i n : Forall flat (flat_map (fun i => [hash_tok; hash_tok; other (48 + N.of_nat i)]) (seq i n)).
+Proof.
+  revert i. induction n as [|n IH]; intros i; cbn [seq flat_map app]; [constructor|].
+  constructor; [split; reflexivity|]. constructor; [split; reflexivity|]. constructor; [split; reflexivity|apply IH].
+Qed.
+Lemma printb_app a b : printb (a ++ b) = printb a ++ printb b.
+Proof. induction a as [|x a IH]; [reflexivity|]. cbn [app printb]. now rewrite IH, app_assoc. Qed.
+Lemma printb_group b : printb_node (NGroup b) = bg :: printb b ++ [eg].
+Proof. reflexivity. Qed.
+Lemma printb_cond t th el :
+  printb_node (NCond t th el) =
+  print_test t ++ printb th ++ match el with Some e => esc s_else :: printb e | None => [] end ++ [esc s_fi].
+Proof. destruct el; reflexivity. Qed.
+Fixpoint printb_ors (l : list (list node)) : list tok :=
+  match l with [] => [] | b :: r => esc s_or :: printb b ++ printb_ors r end.
+Lemma printb_case_node a b0 bs el :
+  printb_node (NCase a (b0 :: bs) el) =
+  esc s_ifcase :: pop a ++ esc s_relax :: printb b0 ++ printb_ors bs ++ else_partb el ++ [esc s_fi].
+Proof. destruct el; reflexivity. Qed.
+Fixpoint printb_args (l : list (list node)) : list tok :=
+  match l with [] => [] | a :: r => bg :: printb a ++ eg :: printb_args r end.
+Lemma printb_def g nm np b :
+  printb_node (NDef g nm np None b) = esc (if g then s_gdef else s_def) :: esc (mname nm) :: param_text2 np ++ bg :: printb b ++ [eg].
+Proof. reflexivity. Qed.
+Lemma printb_newcommand g nm np d b :
+  printb_node (NDef g nm np (Some d) b) =
+  esc s_newcommand :: bg :: esc (mname nm) :: eg :: lbr :: map other (digits (N.of_nat (S np))) ++ rbr :: lbr :: printb d ++ rbr ::
+  bg :: printb b ++ [eg].
+Proof. reflexivity. Qed.
+Definition opt_toksb (o : option (list node)) : list tok := match o with Some x => lbr :: printb x ++ [rbr] | None => [] end.
+Lemma printb_call nm o a : printb_node (NCall nm o a) = esc (mname nm) :: opt_toksb o ++ printb_args a.
+Proof. destruct o; reflexivity. Qed.
+Lemma words_printb x : forallb is_word x = true -> exists ws, printb x = flat_map wprint ws.
+Proof.
+  induction x as [|n x IH]; intros H; [exists []; reflexivity|]. cbn [forallb] in H. apply andb_true_iff in H as [H1 H2].
+  destruct n; try discriminate H1. destruct (IH H2) as (ws & E). exists (w :: ws). cbn [printb flat_map]. now rewrite E.
+Qed.
+Lemma printb_param k : printb_node (NParam k) = [hash_tok; other (48 + N.of_nat k)].
+Proof. reflexivity. Qed.
+Lemma printb_let nm tg : printb_node (NLet nm tg) = [esc s_let; esc (mname nm); other 61; esc (mname tg)].
+Proof. reflexivity. Qed.
+Lemma walks_listb l : Forall (fun x => forall k, walks (printb_node x) k k) l -> forall k, walks (printb l) k k.
+Proof. induction 1 as [|x l Hx _ IH]; intros k; [apply walks_nil|]. cbn [printb]. eapply walks_app; [apply Hx|apply IH]. Qed.
+Lemma walks_wordsb x k : forallb is_word x = true -> walks (printb x) k k.
+Proof.
+  intros H. destruct (words_printb x H) as (ws & ->). clear H. induction ws as [|w ws IH]; [apply walks_nil|].
+  cbn [flat_map]. eapply walks_app; [apply walks_wprint|exact IH].
+Qed.
+Lemma depth_wordsb x d : forallb is_word x = true -> depth_after (printb x) d = Some d.
+Proof.
+  intros H. destruct (words_printb x H) as (ws & ->). clear H. revert d. induction ws as [|w ws IH]; intros d; [reflexivity|].
+  cbn [flat_map]. now rewrite depth_after_app, (depth_flat _ (flat_wprint w)), IH.
+Qed.
+Lemma walks_optb o k : opt_ok o = true -> walks (opt_toksb o) k k.
+Proof.
+  destruct o as [x|]; intros H; [|apply walks_nil]. cbn [opt_toksb opt_ok] in *.
+  change (lbr :: ?l) with ([lbr] ++ l). eapply walks_app; [apply walks_tok; reflexivity|].
+  eapply walks_app; [now apply walks_wordsb|apply walks_tok; reflexivity].
+Qed.
+Lemma depth_optb o d : opt_ok o = true -> depth_after (opt_toksb o) d = Some d.
+Proof.
+  destruct o as [x|]; intros H; [|reflexivity]. cbn [opt_toksb opt_ok depth_after] in *.
+  change (is_bgroup lbr) with false. change (is_egroup lbr) with false. cbn iota.
+  rewrite depth_after_app, (depth_wordsb x d H). reflexivity.
+Qed.
+Lemma walks_orsb r k : Forall (Forall (fun x => forall k, walks (printb_node x) k k)) r -> walks (printb_ors r) (S k) (S k).
+Proof.
+  induction 1 as [|b r Hb _ IH]; [apply walks_nil|]. cbn [printb_ors]. change (esc s_or :: ?l) with ([esc s_or] ++ l).
+  eapply walks_app; [apply walks_or|]. eapply walks_app; [now apply walks_listb|exact IH].
+Qed.
+Lemma walks_Wb : forall x, w_node x = true -> forall k, walks (printb_node x) k k.
+Proof.
+  apply (node_ind2 (fun x => w_node x = true -> forall k, walks (printb_node x) k k)).
+  - intros n Hs H k. destruct n; try discriminate H; try discriminate Hs.
+    + apply walks_wprint.
+    + rewrite printb_let. apply walks_toks. repeat (constructor; [reflexivity|]). constructor.
+    + rewrite printb_param. apply walks_toks. constructor; [reflexivity|]. constructor; [reflexivity|constructor].
+    + apply walks_toks. repeat (constructor; [reflexivity|]). constructor.
+    + apply walks_toks. repeat (constructor; [reflexivity|]). constructor.
+    + apply walks_tok. destruct b; reflexivity.
+    + (* \newif: the scanner takes the following token with it, whatever it is *)
+      intros tl cur done els. reflexivity.
+    + apply walks_toks. constructor; [reflexivity|apply ktok_cname_arg].
+    + apply walks_counter_cmd. reflexivity.
+    + apply walks_counter_cmd. reflexivity.
+  - intros b IH H k. cbn [w_node] in H. rewrite printb_group. change (bg :: ?l) with ([bg] ++ l).
+    eapply walks_app; [apply walks_tok; reflexivity|]. eapply walks_app; [|apply walks_tok; reflexivity].
+    apply walks_listb. now apply (Forall_forallb w_node).
+  - intros g nm np d b IH H k. cbn [w_node] in H. apply andb_true_iff in H as [Hd H]. destruct d as [dd|].
+    { rewrite printb_newcommand. cbn [opt_ok] in Hd.
+      change (esc s_newcommand :: bg :: esc (mname nm) :: eg :: lbr :: ?l) with ([esc s_newcommand; bg; esc (mname nm); eg; lbr] ++ l).
+      eapply walks_app; [apply walks_toks; repeat (constructor; [reflexivity|]); constructor|].
+      eapply walks_app; [apply walks_toks, Forall_map_tok; intros c; reflexivity|].
+      change (rbr :: lbr :: ?l) with ([rbr; lbr] ++ l). eapply walks_app; [apply walks_toks; repeat (constructor; [reflexivity|]); constructor|].
+      eapply walks_app; [now apply walks_wordsb|].
+      change (rbr :: bg :: ?l) with ([rbr; bg] ++ l). eapply walks_app; [apply walks_toks; repeat (constructor; [reflexivity|]); constructor|].
+      eapply walks_app; [|apply walks_tok; reflexivity].
+      apply walks_listb. now apply (Forall_forallb w_node). }
+    rewrite printb_def.
+    change (?a :: ?b' :: ?l) with ([a; b'] ++ l). eapply walks_app.
+    + apply walks_toks. constructor; [destruct g; reflexivity|]. constructor; [reflexivity|constructor].
+    + eapply walks_app; [apply walks_param_text2|]. change (bg :: ?l) with ([bg] ++ l).
+      eapply walks_app; [apply walks_tok; reflexivity|]. eapply walks_app; [|apply walks_tok; reflexivity].
+      apply walks_listb. now apply (Forall_forallb w_node).
+  - intros nm o a IH H k. cbn [w_node] in H. apply andb_true_iff in H as [Ho H]. rewrite printb_call.
+    change (?x :: ?l) with ([x] ++ l). eapply walks_app; [apply walks_tok; reflexivity|].
+    eapply walks_app; [now apply walks_optb|].
+    pose proof (Forall2_forallb w_node _ a IH H) as Ha. clear IH H.
+    induction Ha as [|arg a Harg _ IHa]; [apply walks_nil|]. cbn [printb_args].
+    change (bg :: ?l) with ([bg] ++ l). eapply walks_app; [apply walks_tok; reflexivity|].
+    eapply walks_app; [now apply walks_listb|]. change (eg :: ?l) with ([eg] ++ l).
+    eapply walks_app; [apply walks_tok; reflexivity|exact IHa].
+  - intros t th el IHth IHel H k. cbn [w_node] in H. apply andb_true_iff in H as [H He]. apply andb_true_iff in H as [Ht Hth].
+    rewrite printb_cond. eapply walks_app; [now apply walks_test2|].
+    eapply walks_app; [apply walks_listb; now apply (Forall_forallb w_node)|].
+    eapply walks_app; [|apply walks_fi].
+    destruct el as [e|]; [|apply walks_nil].
+    change (esc s_else :: ?l) with ([esc s_else] ++ l). eapply walks_app; [apply walks_else|].
+    apply walks_listb. apply (Forall_forallb w_node); [now apply IHel|exact He].
+  - intros a bs el IHbs IHel H k. cbn [w_node] in H. apply andb_true_iff in H as [H He]. apply andb_true_iff in H as [Hh Hbs].
+    destruct (case_head_inv _ _ Hh) as (b0 & r & -> & Ha). rewrite printb_case_node.
+    pose proof (Forall2_forallb w_node _ _ IHbs Hbs) as HB. inversion HB as [|x l Hb0 Hr]; subst.
+    change (esc s_ifcase :: ?l) with ([esc s_ifcase] ++ l). eapply walks_app; [apply walks_if; reflexivity|].
+    eapply walks_app; [apply walks_toks, ktok_pop|].
+    change (esc s_relax :: ?l) with ([esc s_relax] ++ l). eapply walks_app; [apply walks_tok; reflexivity|].
+    eapply walks_app; [now apply walks_listb|]. eapply walks_app; [now apply walks_orsb|].
+    eapply walks_app; [|apply walks_fi].
+    destruct el as [e|]; [|apply walks_nil]. cbn [else_partb].
+    change (esc s_else :: ?l) with ([esc s_else] ++ l). eapply walks_app; [apply walks_else|].
+    apply walks_listb. apply (Forall_forallb w_node); [now apply IHel|exact He].
+Qed.
+Lemma walks_Wlb l : forallb w_node l = true -> forall k, walks (printb l) k k.
+Proof. intros H. apply walks_listb. apply (Forall_forallb w_node); [|exact H]. apply Forall_forall. intros x _. apply walks_Wb. Qed.
+Lemma depth_listb l : Forall (fun x => forall d, depth_after (printb_node x) d = Some d) l -> forall d, depth_after (printb l) d = Some d.
+Proof. induction 1 as [|x l Hx _ IH]; intros d; [reflexivity|]. cbn [printb]. now rewrite depth_after_app, Hx, IH. Qed.
+Lemma depth_Wb : forall x, w_node x = true -> forall d, depth_after (printb_node x) d = Some d.
+Proof.
+  apply (node_ind2 (fun x => w_node x = true -> forall d, depth_after (printb_node x) d = Some d)).
+  - intros n Hs H d. destruct n; try discriminate H; try discriminate Hs.
+    + apply depth_flat, flat_wprint.
+    + reflexivity.
+    + reflexivity.
+    + reflexivity.
+    + reflexivity.
+    + reflexivity.
+    + reflexivity.
+    + cbn [printb_node depth_after]. change (is_bgroup (esc s_stepcounter)) with false. change (is_egroup (esc s_stepcounter)) with false. cbn iota.
+      apply depth_cname_arg.
+    + apply depth_counter_cmd.
+    + apply depth_counter_cmd.
+  - intros b IH H d. cbn [w_node] in H. rewrite printb_group. cbn [depth_after]. change (is_bgroup bg) with true. cbn iota.
+    rewrite depth_after_app, (depth_listb b (Forall_forallb w_node _ b IH H)). reflexivity.
+  - intros g nm np dd b IH H d. cbn [w_node] in H. apply andb_true_iff in H as [Hd H]. destruct dd as [dd|].
+    { rewrite printb_newcommand. cbn [opt_ok] in Hd. cbn [depth_after].
+      change (is_bgroup (esc s_newcommand)) with false. change (is_egroup (esc s_newcommand)) with false.
+      change (is_bgroup bg) with true. change (is_bgroup (esc (mname nm))) with false. change (is_egroup (esc (mname nm))) with false.
+      change (is_bgroup eg) with false. change (is_egroup eg) with true. change (is_bgroup lbr) with false. change (is_egroup lbr) with false. cbn iota.
+      rewrite depth_after_app, (depth_flat (map other _)) by (apply Forall_map_tok; intros c; split; reflexivity).
+      cbn [depth_after]. change (is_bgroup rbr) with false. change (is_egroup rbr) with false.
+      change (is_bgroup lbr) with false. change (is_egroup lbr) with false. cbn iota.
+      rewrite depth_after_app, (depth_wordsb dd d Hd). cbn [depth_after].
+      change (is_bgroup rbr) with false. change (is_egroup rbr) with false. change (is_bgroup bg) with true. cbn iota.
+      rewrite depth_after_app, (depth_listb b (Forall_forallb w_node _ b IH H)). reflexivity. }
+    rewrite printb_def.
+    change (?a :: ?b' :: ?l) with ([a; b'] ++ l). rewrite depth_after_app.
+    rewrite (depth_flat [esc (if g then s_gdef else s_def); esc (mname nm)]) by
+      (constructor; [destruct g; split; reflexivity|]; constructor; [split; reflexivity|constructor]).
+    rewrite depth_after_app. unfold param_text2. rewrite (depth_flat _ (flat_param_text2 1 np)).
+    cbn [depth_after]. change (is_bgroup bg) with true. cbn iota.
+    rewrite depth_after_app, (depth_listb b (Forall_forallb w_node _ b IH H)). reflexivity.
+  - intros nm o a IH H d. cbn [w_node] in H. apply andb_true_iff in H as [Ho H]. rewrite printb_call.
+    cbn [depth_after]. change (is_bgroup (esc (mname nm))) with false. change (is_egroup (esc (mname nm))) with false. cbn iota.
+    rewrite depth_after_app, (depth_optb o d Ho).
+    pose proof (Forall2_forallb w_node _ a IH H) as Ha. clear IH H. revert d.
+    induction Ha as [|arg a Harg _ IHa]; intros d; [reflexivity|]. cbn [printb_args depth_after].
+    change (is_bgroup bg) with true. cbn iota. rewrite depth_after_app, (depth_listb arg Harg). cbn [depth_after].
+    change (is_bgroup eg) with false. change (is_egroup eg) with true. cbn iota. apply IHa.
+  - intros t th el IHth IHel H d. cbn [w_node] in H. apply andb_true_iff in H as [H He]. apply andb_true_iff in H as [Ht Hth].
+    rewrite printb_cond.
+    rewrite depth_after_app, (depth_test t), depth_after_app, (depth_listb th (Forall_forallb w_node _ th IHth Hth)), depth_after_app.
+    destruct el as [e|]; [|reflexivity].
+    cbn [depth_after]. change (is_bgroup (esc s_else)) with false. change (is_egroup (esc s_else)) with false. cbn iota.
+    rewrite (depth_listb e (Forall_forallb w_node _ e (IHel e eq_refl) He)). reflexivity.
+  - intros a bs el IHbs IHel H d. cbn [w_node] in H. apply andb_true_iff in H as [H He]. apply andb_true_iff in H as [Hh Hbs].
+    destruct (case_head_inv _ _ Hh) as (b0 & r & -> & Ha). rewrite printb_case_node.
+    pose proof (Forall2_forallb w_node _ _ IHbs Hbs) as HB. inversion HB as [|x l Hb0 Hr]; subst.
+    cbn [depth_after]. change (is_bgroup (esc s_ifcase)) with false. change (is_egroup (esc s_ifcase)) with false. cbn iota.
+    rewrite depth_after_app, depth_pop.
+    cbn [depth_after]. change (is_bgroup (esc s_relax)) with false. change (is_egroup (esc s_relax)) with false. cbn iota.
+    rewrite depth_after_app, (depth_listb b0 Hb0), depth_after_app.
+    assert (Hors : forall d, depth_after (printb_ors r) d = Some d).
+    { clear -Hr. induction Hr as [|b r Hb _ IH]; intros d; [reflexivity|]. cbn [printb_ors depth_after].
+      change (is_bgroup (esc s_or)) with false. change (is_egroup (esc s_or)) with false. cbn iota.
+      now rewrite depth_after_app, (depth_listb b Hb), IH. }
+    rewrite Hors, depth_after_app.
+    destruct el as [e|]; [|reflexivity]. cbn [else_partb depth_after].
+    change (is_bgroup (esc s_else)) with false. change (is_egroup (esc s_else)) with false. cbn iota.
+    rewrite (depth_listb e (Forall_forallb w_node _ e (IHel e eq_refl) He)). reflexivity.
+Qed.
+Lemma depth_Wlb l : forallb w_node l = true -> forall d, depth_after (printb l) d = Some d.
+Proof. intros H. apply depth_listb. apply (Forall_forallb w_node); [|exact H]. apply Forall_forall. intros x _. apply depth_Wb. Qed.
+
 Lemma walks_ors r k : Forall (Forall (fun x => forall k, walks (print_node x) k k)) r -> walks (print_ors r) (S k) (S k).
 Proof.
   induction 1 as [|b r Hb _ IH]; [apply walks_nil|]. cbn [print_ors]. change (esc s_or :: ?l) with ([esc s_or] ++ l).
@@ -1383,6 +1649,8 @@ Proof.
     + apply walks_wprint.
     + rewrite print_let. apply walks_toks. repeat (constructor; [reflexivity|]). constructor.
     + rewrite print_param. apply walks_toks. constructor; [reflexivity|]. constructor; [reflexivity|constructor].
+    + apply walks_nil.
+    + apply walks_toks. repeat (constructor; [reflexivity|]). constructor.
     + apply walks_tok. destruct b; reflexivity.
     + (* \newif: the scanner takes the following token with it, whatever it is *)
       intros tl cur done els. reflexivity.
@@ -1401,13 +1669,13 @@ Proof.
       eapply walks_app; [now apply walks_words|].
       change (rbr :: bg :: ?l) with ([rbr; bg] ++ l). eapply walks_app; [apply walks_toks; repeat (constructor; [reflexivity|]); constructor|].
       eapply walks_app; [|apply walks_tok; reflexivity].
-      apply walks_list. now apply (Forall_forallb w_node). }
+      apply walks_Wlb. exact H. }
     rewrite print_def.
     change (?a :: ?b' :: ?l) with ([a; b'] ++ l). eapply walks_app.
     + apply walks_toks. constructor; [destruct g; reflexivity|]. constructor; [reflexivity|constructor].
     + eapply walks_app; [apply walks_param_text|]. change (bg :: ?l) with ([bg] ++ l).
       eapply walks_app; [apply walks_tok; reflexivity|]. eapply walks_app; [|apply walks_tok; reflexivity].
-      apply walks_list. now apply (Forall_forallb w_node).
+      apply walks_Wlb. exact H.
   - intros nm o a IH H k. cbn [w_node] in H. apply andb_true_iff in H as [Ho H]. rewrite print_call.
     change (?x :: ?l) with ([x] ++ l). eapply walks_app; [apply walks_tok; reflexivity|].
     eapply walks_app; [now apply walks_opt|].
@@ -1441,17 +1709,14 @@ Proof. intros H. apply walks_list. apply (Forall_forallb w_node); [|exact H]. ap
 
 Lemma depth_list l : Forall (fun x => forall d, depth_after (print_node x) d = Some d) l -> forall d, depth_after (print l) d = Some d.
 Proof. induction 1 as [|x l Hx _ IH]; intros d; [reflexivity|]. cbn [print]. now rewrite depth_after_app, Hx, IH. Qed.
-Lemma flat_param_text i n : Forall flat (flat_map (fun i => [hash_tok; other (48 + N.of_nat i)]) (seq i n)).
-Proof.
-  revert i. induction n as [|n IH]; intros i; cbn [seq flat_map app]; [constructor|].
-  constructor; [split; reflexivity|]. constructor; [split; reflexivity|apply IH].
-Qed.
 
 Lemma depth_W : forall x, w_node x = true -> forall d, depth_after (print_node x) d = Some d.
 Proof.
   apply (node_ind2 (fun x => w_node x = true -> forall d, depth_after (print_node x) d = Some d)).
   - intros n Hs H d. destruct n; try discriminate H; try discriminate Hs.
     + apply depth_flat, flat_wprint.
+    + reflexivity.
+    + reflexivity.
     + reflexivity.
     + reflexivity.
     + reflexivity.
@@ -1472,14 +1737,14 @@ Proof.
       change (is_bgroup lbr) with false. change (is_egroup lbr) with false. cbn iota.
       rewrite depth_after_app, (depth_words dd d Hd). cbn [depth_after].
       change (is_bgroup rbr) with false. change (is_egroup rbr) with false. change (is_bgroup bg) with true. cbn iota.
-      rewrite depth_after_app, (depth_list b (Forall_forallb w_node _ b IH H)). reflexivity. }
+      rewrite depth_after_app, (depth_Wlb b H). reflexivity. }
     rewrite print_def.
     change (?a :: ?b' :: ?l) with ([a; b'] ++ l). rewrite depth_after_app.
     rewrite (depth_flat [esc (if g then s_gdef else s_def); esc (mname nm)]) by
       (constructor; [destruct g; split; reflexivity|]; constructor; [split; reflexivity|constructor]).
     rewrite depth_after_app. unfold param_text. rewrite (depth_flat _ (flat_param_text 1 np)).
     cbn [depth_after]. change (is_bgroup bg) with true. cbn iota.
-    rewrite depth_after_app, (depth_list b (Forall_forallb w_node _ b IH H)). reflexivity.
+    rewrite depth_after_app, (depth_Wlb b H). reflexivity.
   - intros nm o a IH H d. cbn [w_node] in H. apply andb_true_iff in H as [Ho H]. rewrite print_call.
     cbn [depth_after]. change (is_bgroup (esc (mname nm))) with false. change (is_egroup (esc (mname nm))) with false. cbn iota.
     rewrite depth_after_app, (depth_opt o d Ho).
@@ -1549,22 +1814,27 @@ Lemma fb_W n : forall x d, fb_node n x d = true -> w_node x = true.
 Proof.
   apply (node_ind2 (fun x => forall d, fb_node n x d = true -> w_node x = true)).
   - intros x Hs d H. destruct x; try discriminate H; try discriminate Hs; reflexivity.
-  - intros b IH d H. cbn [fb_node w_node] in *. destruct d as [|d]; [discriminate H|].
+  - intros b IH d H. cbn [fb_node] in H. apply orb_true_iff in H as [Hfa|H]; [exact (fa_W _ Hfa)|].
+    cbn [w_node]. destruct d as [|d]; [discriminate H|].
     apply (forallb_imp (fun y => fb_node n y d)); [|exact H]. eapply Forall_impl; [|exact IH]. intros y Hy. apply Hy.
-  - intros g nm np dd b IH d H. cbn [fb_node w_node] in *. apply andb_true_iff in H as [H0 H]. apply andb_true_iff in H0 as [_ Hd].
+  - intros g nm np dd b IH d H. cbn [fb_node] in H. apply orb_true_iff in H as [Hfa|H]; [exact (fa_W _ Hfa)|].
+    cbn [w_node]. apply andb_true_iff in H as [H0 H]. apply andb_true_iff in H0 as [_ Hd].
     destruct dd; [discriminate Hd|]. cbn [opt_ok andb].
     destruct d as [|d]; [discriminate H|].
     apply (forallb_imp (fun y => fb_node n y d)); [|exact H]. eapply Forall_impl; [|exact IH]. intros y Hy. apply Hy.
-  - intros nm o a IH d H. cbn [fb_node w_node] in *. apply andb_true_iff in H as [H0 H]. rewrite H0. cbn [andb].
+  - intros nm o a IH d H. cbn [fb_node] in H. apply orb_true_iff in H as [Hfa|H]; [exact (fa_W _ Hfa)|].
+    cbn [w_node]. apply andb_true_iff in H as [H0 H]. rewrite H0. cbn [andb].
     clear H0. induction IH as [|arg a Harg _ IHa]; [reflexivity|]. cbn [forallb] in *. apply andb_true_iff in H as [H1 H2].
     apply andb_true_iff. split; [|now apply IHa]. destruct d as [|d]; [discriminate H1|].
     apply (forallb_imp (fun y => fb_node n y d)); [|exact H1]. eapply Forall_impl; [|exact Harg]. intros y Hy. apply Hy.
-  - intros t th el IHth IHel d H. cbn [fb_node w_node] in *. apply andb_true_iff in H as [Ht H]. rewrite Ht. destruct d as [|d]; [discriminate H|].
+  - intros t th el IHth IHel d H. cbn [fb_node] in H. apply orb_true_iff in H as [Hfa|H]; [exact (fa_W _ Hfa)|].
+    cbn [w_node]. apply andb_true_iff in H as [Ht H]. rewrite Ht. destruct d as [|d]; [discriminate H|].
     apply andb_true_iff in H as [Hth He]. cbn [andb]. apply andb_true_iff. split.
     + apply (forallb_imp (fun y => fb_node n y d)); [|exact Hth]. eapply Forall_impl; [|exact IHth]. intros y Hy. apply Hy.
     + destruct el as [e|]; [|reflexivity]. apply (forallb_imp (fun y => fb_node n y d)); [|exact He].
       eapply Forall_impl; [|exact (IHel e eq_refl)]. intros y Hy. apply Hy.
-  - intros a bs el IHbs IHel d H. cbn [fb_node w_node] in *. apply andb_true_iff in H as [Hh H]. rewrite Hh. destruct d as [|d]; [discriminate H|].
+  - intros a bs el IHbs IHel d H. cbn [fb_node] in H. apply orb_true_iff in H as [Hfa|H]; [exact (fa_W _ Hfa)|].
+    cbn [w_node]. apply andb_true_iff in H as [Hh H]. rewrite Hh. destruct d as [|d]; [discriminate H|].
     apply andb_true_iff in H as [Hbs He]. cbn [andb]. apply andb_true_iff. split.
     + apply (forallb2_imp (fun y => fb_node n y d)); [|exact Hbs].
       apply (Forall2_inst (fun d x => fb_node n x d = true -> w_node x = true)). exact IHbs.
@@ -1576,16 +1846,111 @@ Proof. apply forallb_imp. apply Forall_forall. intros x _. apply fb_W. Qed.
 Lemma fa_Wl l : forallb fa_node l = true -> forallb w_node l = true.
 Proof. apply forallb_imp. apply Forall_forall. intros x _. apply fa_W. Qed.
 
+
+Lemma fi_W n m : forall x d, fi_node n m x d = true -> w_node x = true.
+Proof.
+  apply (node_ind2 (fun x => forall d, fi_node n m x d = true -> w_node x = true)).
+  - intros x Hs d H. destruct x; try discriminate H; try discriminate Hs; reflexivity.
+  - intros b IH d H. cbn [fi_node w_node] in *. destruct d as [|d]; [discriminate H|].
+    apply (forallb_imp (fun y => fi_node n m y d)); [|exact H]. eapply Forall_impl; [|exact IH]. intros y Hy. apply Hy.
+  - intros g nm np dd b IH d H. discriminate H.
+  - intros nm o a IH d H. cbn [fi_node w_node] in *. apply andb_true_iff in H as [H0 H]. rewrite H0. cbn [andb].
+    clear H0. induction IH as [|arg a Harg _ IHa]; [reflexivity|]. cbn [forallb] in *. apply andb_true_iff in H as [H1 H2].
+    apply andb_true_iff. split; [|now apply IHa]. destruct d as [|d]; [discriminate H1|].
+    apply (forallb_imp (fun y => fi_node n m y d)); [|exact H1]. eapply Forall_impl; [|exact Harg]. intros y Hy. apply Hy.
+  - intros t th el IHth IHel d H. cbn [fi_node w_node] in *. apply andb_true_iff in H as [Ht H]. rewrite Ht. destruct d as [|d]; [discriminate H|].
+    apply andb_true_iff in H as [Hth He]. cbn [andb]. apply andb_true_iff. split.
+    + apply (forallb_imp (fun y => fi_node n m y d)); [|exact Hth]. eapply Forall_impl; [|exact IHth]. intros y Hy. apply Hy.
+    + destruct el as [e|]; [|reflexivity]. apply (forallb_imp (fun y => fi_node n m y d)); [|exact He].
+      eapply Forall_impl; [|exact (IHel e eq_refl)]. intros y Hy. apply Hy.
+  - intros a bs el IHbs IHel d H. cbn [fi_node w_node] in *. apply andb_true_iff in H as [Hh H]. rewrite Hh. destruct d as [|d]; [discriminate H|].
+    apply andb_true_iff in H as [Hbs He]. cbn [andb]. apply andb_true_iff. split.
+    + apply (forallb2_imp (fun y => fi_node n m y d)); [|exact Hbs].
+      apply (Forall2_inst (fun d x => fi_node n m x d = true -> w_node x = true)). exact IHbs.
+    + destruct el as [e|]; [|reflexivity]. apply (forallb_imp (fun y => fi_node n m y d)); [|exact He].
+      eapply Forall_impl; [|exact (IHel e eq_refl)]. intros y Hy. apply Hy.
+Qed.
+Lemma fi_Wl n m d l : forallb (fun y => fi_node n m y d) l = true -> forallb w_node l = true.
+Proof. apply forallb_imp. apply Forall_forall. intros x _. apply fi_W. Qed.
+
+Lemma fb3_unfold n x d : fb3_node n x d =
+  fb_node n x d ||
+  match x with
+  | NGroup b => match d with O => false | S d' => forallb (fun y => fb3_node n y d') b end
+  | NDef g _ np dflt b =>
+      Nat.leb 1 n &&
+      match d with
+      | O => false
+      | S d' =>
+          match dflt with
+          | None => Nat.leb 1 np && Nat.leb np 9 && forallb (fun y => fi_node n np y d') b
+          | Some dd => g && Nat.leb (S np) 9 && forallb is_word dd && forallb (fun y => fi_node n (S np) y d') b
+          end
+      end
+  | NCond t th el =>
+      f2_test t &&
+      match d with
+      | O => false
+      | S d' => forallb (fun y => fb3_node n y d') th && match el with Some e => forallb (fun y => fb3_node n y d') e | None => true end
+      end
+  | NCase a bs el =>
+      case_head a bs &&
+      match d with
+      | O => false
+      | S d' => forallb (forallb (fun y => fb3_node n y d')) bs && match el with Some e => forallb (fun y => fb3_node n y d') e | None => true end
+      end
+  | _ => false
+  end.
+Proof. destruct x; reflexivity. Qed.
+
+Lemma fb3_W n : forall x d, fb3_node n x d = true -> w_node x = true.
+Proof.
+  apply (node_ind2 (fun x => forall d, fb3_node n x d = true -> w_node x = true)).
+  - intros x Hs d H. rewrite fb3_unfold in H. apply orb_true_iff in H as [H|H]; [exact (fb_W n _ _ H)|].
+    destruct x; try discriminate H; discriminate Hs.
+  - intros b IH d H. rewrite fb3_unfold in H. apply orb_true_iff in H as [H|H]; [exact (fb_W n _ _ H)|].
+    cbn [w_node]. destruct d as [|d]; [discriminate H|].
+    apply (forallb_imp (fun y => fb3_node n y d)); [|exact H]. eapply Forall_impl; [|exact IH]. intros y Hy. apply Hy.
+  - intros g nm np dd b _ d H. rewrite fb3_unfold in H. apply orb_true_iff in H as [H|H]; [exact (fb_W n _ _ H)|].
+    cbn [w_node]. apply andb_true_iff in H as [_ H]. destruct d as [|d]; [discriminate H|]. destruct dd as [dd|].
+    + apply andb_true_iff in H as [H Hb]. apply andb_true_iff in H as [_ Hd]. cbn [opt_ok]. rewrite Hd. now apply (fi_Wl n (S np) d).
+    + apply andb_true_iff in H as [_ Hb]. cbn [opt_ok andb]. now apply (fi_Wl n np d).
+  - intros nm o a _ d H. rewrite fb3_unfold in H. apply orb_true_iff in H as [H|H]; [exact (fb_W n _ _ H)|discriminate H].
+  - intros t th el IHth IHel d H. rewrite fb3_unfold in H. apply orb_true_iff in H as [H|H]; [exact (fb_W n _ _ H)|].
+    cbn [w_node]. apply andb_true_iff in H as [Ht H]. rewrite Ht. destruct d as [|d]; [discriminate H|].
+    apply andb_true_iff in H as [Hth He]. cbn [andb]. apply andb_true_iff. split.
+    + apply (forallb_imp (fun y => fb3_node n y d)); [|exact Hth]. eapply Forall_impl; [|exact IHth]. intros y Hy. apply Hy.
+    + destruct el as [e|]; [|reflexivity]. apply (forallb_imp (fun y => fb3_node n y d)); [|exact He].
+      eapply Forall_impl; [|exact (IHel e eq_refl)]. intros y Hy. apply Hy.
+  - intros a bs el IHbs IHel d H. rewrite fb3_unfold in H. apply orb_true_iff in H as [H|H]; [exact (fb_W n _ _ H)|].
+    cbn [w_node]. apply andb_true_iff in H as [Hh H]. rewrite Hh. destruct d as [|d]; [discriminate H|].
+    apply andb_true_iff in H as [Hbs He]. cbn [andb]. apply andb_true_iff. split.
+    + apply (forallb2_imp (fun y => fb3_node n y d)); [|exact Hbs].
+      apply (Forall2_inst (fun d x => fb3_node n x d = true -> w_node x = true)). exact IHbs.
+    + destruct el as [e|]; [|reflexivity]. apply (forallb_imp (fun y => fb3_node n y d)); [|exact He].
+      eapply Forall_impl; [|exact (IHel e eq_refl)]. intros y Hy. apply Hy.
+Qed.
+Lemma fb3_Wl n d l : forallb (fun y => fb3_node n y d) l = true -> forallb w_node l = true.
+Proof. apply forallb_imp. apply Forall_forall. intros x _. apply fb3_W. Qed.
+
+Lemma fv_W x : fv_node x = true -> w_node x = true.
+Proof.
+  destruct x; try discriminate; [reflexivity|]. destruct default; [discriminate|]. cbn [fv_node w_node opt_ok andb].
+  intros H. apply andb_true_iff in H as [_ H]. now apply (fi_Wl O nparams BODY_DEPTH).
+Qed.
+Lemma fv_Wl l : forallb fv_node l = true -> forallb w_node l = true.
+Proof. apply forallb_imp. apply Forall_forall. intros x _. apply fv_W. Qed.
+
 Lemma f2_W : forall x, f2_node x = true -> w_node x = true.
 Proof.
   apply (node_ind2 (fun x => f2_node x = true -> w_node x = true)).
   - intros n Hs H. destruct n; try discriminate H; try discriminate Hs; reflexivity.
   - intros b IH H. cbn [f2_node w_node] in *. now apply (forallb_imp f2_node).
   - intros g nm np d b _ H. cbn [f2_node w_node] in *. destruct d as [dd|].
-    + apply andb_true_iff in H as [H Hb]. apply andb_true_iff in H as [_ Hd]. cbn [opt_ok]. rewrite Hd. now apply (fb_Wl (S np) BODY_DEPTH).
+    + apply andb_true_iff in H as [H Hb]. apply andb_true_iff in H as [_ Hd]. cbn [opt_ok]. rewrite Hd. now apply (fb3_Wl (S np) BODY_DEPTH).
     + apply andb_true_iff in H as [_ Hb]. cbn [opt_ok andb].
-      apply orb_true_iff in Hb as [Hb|Hb]; [now apply (fb_Wl np BODY_DEPTH)|].
-      apply andb_true_iff in Hb as [_ Hb]. now apply fa_Wl.
+      apply orb_true_iff in Hb as [Hb|Hb]; apply andb_true_iff in Hb as [_ Hb]; [now apply (fb3_Wl np BODY_DEPTH)|].
+      apply orb_true_iff in Hb as [Hb|Hb]; [now apply fa_Wl|now apply fv_Wl].
   - intros nm o a _ H. cbn [f2_node w_node] in *. apply andb_true_iff in H as [Ho Ha]. rewrite Ho.
     apply (forallb2_imp fa_node); [|exact Ha]. apply Forall_forall. intros l _. apply Forall_forall. intros x _. apply fa_W.
   - intros t th el IHth IHel H. cbn [f2_node w_node] in *. apply andb_true_iff in H as [H He]. apply andb_true_iff in H as [Ht Hth].
@@ -1604,7 +1969,7 @@ Proof.
   - intros n Hs H. destruct n; try discriminate H; try discriminate Hs; reflexivity.
   - intros b IH H. cbn [fa_node f2_node] in *. now apply (forallb_imp fa_node).
   - intros g nm np d b _ H. cbn [fa_node f2_node] in *. apply andb_true_iff in H as [H Hb]. apply andb_true_iff in H as [Hn Hd].
-    destruct d; [discriminate Hd|]. rewrite Hn, Hb. apply Nat.eqb_eq in Hn. subst np. cbn. now rewrite orb_true_r.
+    destruct d; [discriminate Hd|]. rewrite Hn, Hb. apply Nat.eqb_eq in Hn. subst np. reflexivity.
   - intros nm o a _ H. exact H.
   - intros t th el IHth IHel H. cbn [fa_node f2_node] in *. apply andb_true_iff in H as [H He]. apply andb_true_iff in H as [Ht Hth].
     rewrite Ht, (forallb_imp fa_node f2_node th IHth Hth). destruct el as [e|]; [|reflexivity].
@@ -1724,6 +2089,144 @@ Proof.
   - constructor; [apply inert_esc; unfold ifname, sname; congruence|constructor].
 Qed.
 
+
+(* ---- where body mode and top mode print the same: no parameters of a nested definition around ---- *)
+Lemma Forall_inst_fb {A} (f : A -> nat -> bool) (Q : A -> Prop) l d :
+  Forall (fun x => forall d, f x d = true -> Q x) l -> forallb (fun y => f y d) l = true -> Forall Q l.
+Proof. intros IH H. apply (Forall_forallb (fun y => f y d)); [|exact H]. eapply Forall_impl; [|exact IH]. intros y Hy. apply Hy. Qed.
+Lemma Forall2_inst_fb {A} (f : A -> nat -> bool) (Q : A -> Prop) ll d :
+  Forall (Forall (fun x => forall d, f x d = true -> Q x)) ll -> forallb (forallb (fun y => f y d)) ll = true -> Forall (Forall Q) ll.
+Proof. intros IH H. apply (Forall2_forallb (fun y => f y d)); [|exact H]. apply (Forall2_inst (fun d x => f x d = true -> Q x)). exact IH. Qed.
+
+Lemma printb_list l : Forall (fun x => printb_node x = print_node x) l -> printb l = print l.
+Proof. induction 1 as [|x l Hx _ IH]; [reflexivity|]. cbn [print printb]. now rewrite Hx, IH. Qed.
+Lemma printb_args_eq a : Forall (Forall (fun x => printb_node x = print_node x)) a -> printb_args a = print_args a.
+Proof. induction 1 as [|l a Hl _ IH]; [reflexivity|]. cbn [print_args printb_args]. now rewrite (printb_list l Hl), IH. Qed.
+Lemma printb_ors_eq r : Forall (Forall (fun x => printb_node x = print_node x)) r -> printb_ors r = print_ors r.
+Proof. induction 1 as [|l a Hl _ IH]; [reflexivity|]. cbn [print_ors printb_ors]. now rewrite (printb_list l Hl), IH. Qed.
+Lemma printb_words x : forallb is_word x = true -> printb x = print x.
+Proof.
+  induction x as [|n x IH]; intros H; [reflexivity|]. cbn [forallb] in H. apply andb_true_iff in H as [H1 H2].
+  destruct n; try discriminate H1. cbn [print printb]. now rewrite (IH H2).
+Qed.
+Lemma opt_toksb_eq o : opt_ok o = true -> opt_toksb o = opt_toks o.
+Proof. destruct o as [x|]; intros H; [|reflexivity]. cbn [opt_toksb opt_toks opt_ok] in *. now rewrite (printb_words x H). Qed.
+
+Lemma printb_A : forall x, fa_node x = true -> printb_node x = print_node x.
+Proof.
+  apply (node_ind2 (fun x => fa_node x = true -> printb_node x = print_node x)).
+  - intros n Hs H. destruct n; try discriminate H; try discriminate Hs; reflexivity.
+  - intros b IH H. cbn [fa_node] in H. rewrite printb_group, print_group, (printb_list b (Forall_forallb fa_node _ b IH H)). reflexivity.
+  - intros g nm np d b IH H. cbn [fa_node] in H. apply andb_true_iff in H as [H Hb]. apply andb_true_iff in H as [Hn Hd].
+    apply Nat.eqb_eq in Hn. subst np. destruct d; [discriminate Hd|]. rewrite printb_def, print_def. reflexivity.
+  - intros nm o a IH H. cbn [fa_node] in H. apply andb_true_iff in H as [Ho Ha].
+    rewrite printb_call, print_call, (opt_toksb_eq o Ho), (printb_args_eq a (Forall2_forallb fa_node _ a IH Ha)). reflexivity.
+  - intros t th el IHth IHel H. cbn [fa_node] in H. apply andb_true_iff in H as [H He]. apply andb_true_iff in H as [Ht Hth].
+    rewrite printb_cond, print_cond, (printb_list th (Forall_forallb fa_node _ th IHth Hth)).
+    destruct el as [e|]; [|reflexivity]. now rewrite (printb_list e (Forall_forallb fa_node _ e (IHel e eq_refl) He)).
+  - intros a bs el IHbs IHel H. cbn [fa_node] in H. apply andb_true_iff in H as [H He]. apply andb_true_iff in H as [Hh Hbs].
+    destruct (case_head_inv _ _ Hh) as (b0 & r & -> & Ha). inversion IHbs as [|x l IHb0 IHr]; subst.
+    cbn [forallb] in Hbs. apply andb_true_iff in Hbs as [Hb0 Hr].
+    rewrite printb_case_node, print_case_node, (printb_list b0 (Forall_forallb fa_node _ b0 IHb0 Hb0)), (printb_ors_eq r (Forall2_forallb fa_node _ r IHr Hr)).
+    destruct el as [e|]; [|reflexivity]. cbn [else_partb else_part]. now rewrite (printb_list e (Forall_forallb fa_node _ e (IHel e eq_refl) He)).
+Qed.
+Lemma printb_Al l : forallb fa_node l = true -> printb l = print l.
+Proof. intros H. apply printb_list. apply (Forall_forallb fa_node); [|exact H]. apply Forall_forall. intros x _. apply printb_A. Qed.
+
+Lemma printb_fb n : forall x d, fb_node n x d = true -> printb_node x = print_node x.
+Proof.
+  apply (node_ind2 (fun x => forall d, fb_node n x d = true -> printb_node x = print_node x)).
+  - intros x Hs d H. destruct x; try discriminate H; try discriminate Hs; reflexivity.
+  - intros b IH d H. cbn [fb_node] in H. apply orb_true_iff in H as [Hfa|H]; [exact (printb_A _ Hfa)|].
+    destruct d as [|d]; [discriminate H|]. rewrite printb_group, print_group, (printb_list b (Forall_inst_fb (fb_node n) _ b d IH H)). reflexivity.
+  - intros g nm np dd b IH d H. cbn [fb_node] in H. apply orb_true_iff in H as [Hfa|H]; [exact (printb_A _ Hfa)|].
+    apply andb_true_iff in H as [H0 H]. apply andb_true_iff in H0 as [Hn Hd]. apply Nat.eqb_eq in Hn. subst np.
+    destruct dd; [discriminate Hd|]. rewrite printb_def, print_def. reflexivity.
+  - intros nm o a IH d H. cbn [fb_node] in H. apply orb_true_iff in H as [Hfa|H]; [exact (printb_A _ Hfa)|].
+    apply andb_true_iff in H as [Ho H]. rewrite printb_call, print_call, (opt_toksb_eq o Ho). f_equal. f_equal. clear Ho.
+    induction IH as [|arg a Harg _ IHa]; [reflexivity|]. cbn [forallb] in H. apply andb_true_iff in H as [H1 H2].
+    cbn [printb_args print_args]. rewrite (IHa H2). destruct d as [|d]; [discriminate H1|].
+    rewrite (printb_list arg (Forall_inst_fb (fb_node n) _ arg d Harg H1)). reflexivity.
+  - intros t th el IHth IHel d H. cbn [fb_node] in H. apply orb_true_iff in H as [Hfa|H]; [exact (printb_A _ Hfa)|].
+    apply andb_true_iff in H as [Ht H]. destruct d as [|d]; [discriminate H|]. apply andb_true_iff in H as [Hth He].
+    rewrite printb_cond, print_cond, (printb_list th (Forall_inst_fb (fb_node n) _ th d IHth Hth)).
+    destruct el as [e|]; [|reflexivity]. now rewrite (printb_list e (Forall_inst_fb (fb_node n) _ e d (IHel e eq_refl) He)).
+  - intros a bs el IHbs IHel d H. cbn [fb_node] in H. apply orb_true_iff in H as [Hfa|H]; [exact (printb_A _ Hfa)|].
+    apply andb_true_iff in H as [Hh H]. destruct d as [|d]; [discriminate H|]. apply andb_true_iff in H as [Hbs He].
+    destruct (case_head_inv _ _ Hh) as (b0 & r & -> & Ha). inversion IHbs as [|x l IHb0 IHr]; subst.
+    cbn [forallb] in Hbs. apply andb_true_iff in Hbs as [Hb0 Hr].
+    rewrite printb_case_node, print_case_node, (printb_list b0 (Forall_inst_fb (fb_node n) _ b0 d IHb0 Hb0)),
+      (printb_ors_eq r (Forall2_inst_fb (fb_node n) _ r d IHr Hr)).
+    destruct el as [e|]; [|reflexivity]. cbn [else_partb else_part]. now rewrite (printb_list e (Forall_inst_fb (fb_node n) _ e d (IHel e eq_refl) He)).
+Qed.
+Lemma printb_fbl n d l : forallb (fun y => fb_node n y d) l = true -> printb l = print l.
+Proof. intros H. apply printb_list. apply (Forall_forallb (fun y => fb_node n y d)); [|exact H]. apply Forall_forall. intros x _. apply printb_fb. Qed.
+
+Lemma fa_fb n x d : fa_node x = true -> fb_node n x d = true.
+Proof. intros H. destruct x; try discriminate H; try reflexivity; cbn [fb_node]; apply orb_true_iff; left; exact H. Qed.
+Lemma fa_fbl n d l : forallb fa_node l = true -> forallb (fun y => fb_node n y d) l = true.
+Proof. apply forallb_imp. apply Forall_forall. intros x _. apply fa_fb. Qed.
+
+(* argument text contains no parameter character *)
+Lemma inert_list l : Forall (fun x => Forall inert (print_node x)) l -> Forall inert (print l).
+Proof. induction 1 as [|x l Hx _ IH]; [constructor|]. cbn [print]. apply Forall_app. split; assumption. Qed.
+Lemma inert_words x : forallb is_word x = true -> Forall inert (print x).
+Proof.
+  intros H. destruct (words_print x H) as (l & ->). clear. induction l as [|w l IHl]; [constructor|].
+  cbn [flat_map]. apply Forall_app. split; [apply inert_wprint|exact IHl].
+Qed.
+Lemma inert_opt o : opt_ok o = true -> Forall inert (opt_toks o).
+Proof.
+  destruct o as [ws|]; intros Ho; [|constructor]. cbn [opt_toks opt_ok] in *. constructor; [apply inert_other|].
+  apply Forall_app. split; [now apply inert_words|constructor; [apply inert_other|constructor]].
+Qed.
+Lemma inert_args a : Forall (Forall (fun x => Forall inert (print_node x))) a -> Forall inert (print_args a).
+Proof.
+  induction 1 as [|l a Hl _ IH]; [constructor|]. cbn [print_args]. constructor; [apply inert_bg|].
+  apply Forall_app. split; [now apply inert_list|constructor; [apply inert_eg|exact IH]].
+Qed.
+Lemma inert_ors r : Forall (Forall (fun x => Forall inert (print_node x))) r -> Forall inert (print_ors r).
+Proof.
+  induction 1 as [|l a Hl _ IH]; [constructor|]. cbn [print_ors]. constructor; [apply inert_esc; cbv; congruence|].
+  apply Forall_app. split; [now apply inert_list|exact IH].
+Qed.
+Lemma inert_A : forall x, fa_node x = true -> Forall inert (print_node x).
+Proof.
+  apply (node_ind2 (fun x => fa_node x = true -> Forall inert (print_node x))).
+  - intros x Hs H. destruct x; try discriminate H; try discriminate Hs.
+    + apply inert_wprint.
+    + rewrite print_let. constructor; [apply inert_esc; cbv; congruence|]. constructor; [apply inert_mname|]. constructor; [apply inert_other|].
+      constructor; [apply inert_mname|constructor].
+    + constructor; [|constructor]. apply inert_esc. unfold setname, sname. destruct b; cbn; congruence.
+    + constructor; [apply inert_esc; cbv; congruence|]. constructor; [apply inert_esc; unfold ifname, sname; congruence|constructor].
+    + constructor; [apply inert_esc; cbv; congruence|apply inert_cname_arg].
+    + apply inert_counter_cmd. cbv; congruence.
+    + apply inert_counter_cmd. cbv; congruence.
+  - intros b IH H. cbn [fa_node] in H. rewrite print_group. constructor; [apply inert_bg|]. apply Forall_app.
+    split; [apply inert_list, (Forall_forallb fa_node _ b IH H)|constructor; [apply inert_eg|constructor]].
+  - intros g nm np d b IH H. cbn [fa_node] in H. apply andb_true_iff in H as [H Hb]. apply andb_true_iff in H as [Hn Hd].
+    apply Nat.eqb_eq in Hn. subst np. destruct d; [discriminate Hd|]. rewrite print_def, (printb_Al b Hb).
+    change (param_text O) with (@nil tok). cbn [app].
+    constructor; [destruct g; apply inert_esc; cbv; congruence|]. constructor; [apply inert_mname|]. constructor; [apply inert_bg|].
+    apply Forall_app. split; [apply inert_list, (Forall_forallb fa_node _ b IH Hb)|constructor; [apply inert_eg|constructor]].
+  - intros nm o a IH H. cbn [fa_node] in H. apply andb_true_iff in H as [Ho Ha]. rewrite print_call.
+    constructor; [apply inert_mname|]. apply Forall_app. split; [now apply inert_opt|]. apply inert_args, (Forall2_forallb fa_node _ a IH Ha).
+  - intros t th el IHth IHel H. cbn [fa_node] in H. apply andb_true_iff in H as [H He]. apply andb_true_iff in H as [Ht Hth].
+    rewrite print_cond. apply Forall_app. split; [apply inert_test|]. apply Forall_app.
+    split; [apply inert_list, (Forall_forallb fa_node _ th IHth Hth)|]. apply Forall_app. split; [|constructor; [apply inert_esc; cbv; congruence|constructor]].
+    destruct el as [e|]; [|constructor]. constructor; [apply inert_esc; cbv; congruence|]. apply inert_list, (Forall_forallb fa_node _ e (IHel e eq_refl) He).
+  - intros a bs el IHbs IHel H. cbn [fa_node] in H. apply andb_true_iff in H as [H He]. apply andb_true_iff in H as [Hh Hbs].
+    destruct (case_head_inv _ _ Hh) as (b0 & r & -> & Ha). inversion IHbs as [|x l IHb0 IHr]; subst.
+    cbn [forallb] in Hbs. apply andb_true_iff in Hbs as [Hb0 Hr]. rewrite print_case_node.
+    constructor; [apply inert_esc; cbv; congruence|]. apply Forall_app. split; [apply inert_pop|].
+    constructor; [apply inert_esc; cbv; congruence|]. apply Forall_app. split; [apply inert_list, (Forall_forallb fa_node _ b0 IHb0 Hb0)|].
+    apply Forall_app. split; [apply inert_ors, (Forall2_forallb fa_node _ r IHr Hr)|].
+    apply Forall_app. split; [|constructor; [apply inert_esc; cbv; congruence|constructor]].
+    destruct el as [e|]; [|constructor]. constructor; [apply inert_esc; cbv; congruence|]. apply inert_list, (Forall_forallb fa_node _ e (IHel e eq_refl) He).
+Qed.
+Lemma xp_cons ps t P P' : inert t -> xp ps P P' -> xp ps (t :: P) (t :: P').
+Proof. intros Ht H. apply (xp_app ps [t] [t] P P'); [now apply xp_tok|exact H]. Qed.
+
 (* ---- print (subst args body) = expandDef (print body) (map print args) ---- *)
 Section Subst.
   Context (args : list (list node)) (n : nat).
@@ -1774,6 +2277,17 @@ Section Subst.
     now apply H.
   Qed.
 
+  Lemma sbn_A d x : fa_node x = true -> sbn d x = [x].
+  Proof.
+    intros H. assert (E : subst (S d) args [x] = [x]) by (apply subst_A; cbn [forallb]; now rewrite H).
+    rewrite subst_S in E. cbn [flat_map] in E. now rewrite app_nil_r in E.
+  Qed.
+  Lemma Q_fa x d : fa_node x = true -> Q d x.
+  Proof.
+    intros H. unfold Q. rewrite (sbn_A d x H). split; [|cbn [forallb]; now rewrite H].
+    cbn [print]. rewrite app_nil_r. apply xp_toks, inert_A, H.
+  Qed.
+
   Lemma Q_all : forall x d, fb_node n x d = true -> Q d x.
   Proof.
     apply (node_ind2 (fun x => forall d, fb_node n x d = true -> Q d x)).
@@ -1793,22 +2307,22 @@ Section Subst.
         constructor; [apply inert_esc; cbv; congruence|apply inert_cname_arg].
       + split; [|reflexivity]. cbn [sbn print]. rewrite app_nil_r. apply xp_toks, inert_counter_cmd. cbv; congruence.
       + split; [|reflexivity]. cbn [sbn print]. rewrite app_nil_r. apply xp_toks, inert_counter_cmd. cbv; congruence.
-    - intros b IH d H. cbn [fb_node] in H. destruct d as [|d]; [discriminate H|].
+    - intros b IH d H. cbn [fb_node] in H. apply orb_true_iff in H as [Hfa|H]; [exact (Q_fa _ d Hfa)|]. destruct d as [|d]; [discriminate H|].
       destruct (Q_list b d IH H) as [H1 H2]. split.
       + cbn [sbn print]. rewrite print_group, app_nil_r, print_group.
         change (bg :: ?l) with ([bg] ++ l). apply xp_app; [apply xp_tok, inert_bg|].
         apply xp_app; [exact H1|apply xp_tok, inert_eg].
       + cbn [sbn forallb fa_node]. now rewrite H2.
-    - intros g nm np dd b IH d H. cbn [fb_node] in H. apply andb_true_iff in H as [H0 H]. apply andb_true_iff in H0 as [Hnp Hdd].
+    - intros g nm np dd b IH d H. cbn [fb_node] in H. apply orb_true_iff in H as [Hfa|H]; [exact (Q_fa _ d Hfa)|]. apply andb_true_iff in H as [H0 H]. apply andb_true_iff in H0 as [Hnp Hdd].
       apply Nat.eqb_eq in Hnp. subst np. destruct dd; [discriminate Hdd|]. destruct d as [|d]; [discriminate H|].
       destruct (Q_list b d IH H) as [H1 H2]. unfold Q. cbn [sbn option_map]. rewrite (lower_A 50 _ H2). split.
-      + cbn [print]. rewrite !print_def, app_nil_r. change (param_text O) with (@nil tok). cbn [app].
+      + cbn [print]. rewrite !print_def, app_nil_r, (printb_fbl n d b H), (printb_Al _ H2). change (param_text O) with (@nil tok). cbn [app].
         change (?a :: ?b' :: bg :: ?l) with ([a; b'; bg] ++ l). apply xp_app.
         * apply xp_toks. constructor; [destruct g; apply inert_esc; cbv; congruence|]. constructor; [apply inert_mname|].
           constructor; [apply inert_bg|constructor].
         * apply xp_app; [exact H1|apply xp_tok, inert_eg].
       + cbn [forallb fa_node Nat.eqb is_none andb]. now rewrite H2.
-    - intros nm o a IH d H. cbn [fb_node] in H. apply andb_true_iff in H as [Ho H].
+    - intros nm o a IH d H. cbn [fb_node] in H. apply orb_true_iff in H as [Hfa|H]; [exact (Q_fa _ d Hfa)|]. apply andb_true_iff in H as [Ho H].
       assert (Hopt : option_map (subst d args) o = o).
       { destruct o as [ws|]; [|reflexivity]. cbn [option_map opt_ok] in *. f_equal. apply subst_A. now apply words_fa. }
       assert (Hoi : Forall inert (opt_toks o)).
@@ -1827,7 +2341,7 @@ Section Subst.
       + unfold sbn. rewrite Hopt. cbn [print]. rewrite !print_call, app_nil_r. change (?x :: ?l) with ([x] ++ l).
         apply xp_app; [apply xp_tok, inert_mname|]. apply xp_app; [now apply xp_toks|exact A1].
       + unfold sbn. rewrite Hopt. cbn [forallb fa_node andb]. now rewrite Ho, A2.
-    - intros t th el IHth IHel d H. cbn [fb_node] in H. apply andb_true_iff in H as [Ht H]. destruct d as [|d]; [discriminate H|].
+    - intros t th el IHth IHel d H. cbn [fb_node] in H. apply orb_true_iff in H as [Hfa|H]; [exact (Q_fa _ d Hfa)|]. apply andb_true_iff in H as [Ht H]. destruct d as [|d]; [discriminate H|].
       apply andb_true_iff in H as [Hth He]. destruct (Q_list th d IHth Hth) as [T1 T2].
       assert (E : xp ps (else_part el) (else_part (option_map (subst (S d) args) el)) /\
                   match option_map (subst (S d) args) el with Some e => forallb fa_node e | None => true end = true).
@@ -1839,7 +2353,7 @@ Section Subst.
         apply xp_app; [apply xp_toks, inert_test|]. apply xp_app; [exact T1|].
         apply xp_app; [exact E1|apply xp_tok, inert_esc; cbv; congruence].
       + cbn [forallb fa_node]. now rewrite Ht, T2, E2.
-    - intros a bs el IHbs IHel d H. cbn [fb_node] in H. apply andb_true_iff in H as [Hh H]. destruct d as [|d]; [discriminate H|].
+    - intros a bs el IHbs IHel d H. cbn [fb_node] in H. apply orb_true_iff in H as [Hfa|H]; [exact (Q_fa _ d Hfa)|]. apply andb_true_iff in H as [Hh H]. destruct d as [|d]; [discriminate H|].
       apply andb_true_iff in H as [Hbs He]. destruct (case_head_inv _ _ Hh) as (b0 & r & -> & Ha).
       inversion IHbs as [|x l IHb0 IHr]; subst. cbn [forallb] in Hbs. apply andb_true_iff in Hbs as [Hb0 Hr].
       destruct (Q_list b0 d IHb0 Hb0) as [B1 B2].
@@ -1872,7 +2386,311 @@ Section Subst.
     intros H. destruct (Q_list b d) as [H1 H2]; [apply Forall_forall; intros x _; apply Q_all|exact H|].
     split; [|exact H2]. specialize (H1 []). rewrite !app_nil_r in H1. rewrite H1. cbn [expand_def]. now rewrite app_nil_r.
   Qed.
+  (* ---- definitions with parameters of their own inside a body: ##k ---- *)
+  Definition low1 (j : nat) (x : node) : node :=
+    match x with
+    | NParam2 k => NParam k
+    | NGroup b => NGroup (lower j b)
+    | NDef g nm np d b => NDef g nm np (option_map (lower j) d) (lower j b)
+    | NCall nm o a => NCall nm (option_map (lower j) o) (map (lower j) a)
+    | NCond t th el => NCond t (lower j th) (option_map (lower j) el)
+    | NCase a bs el => NCase a (map (lower j) bs) (option_map (lower j) el)
+    | other => other
+    end.
+  Lemma lower_S j l : lower (S j) l = map (low1 j) l.
+  Proof. reflexivity. Qed.
+
+  Lemma xp_hash2 : xp ps [hash_tok; hash_tok] [hash_tok].
+  Proof. intros tl. cbn [app expand_def]. change (is_param hash_tok) with true. cbn iota. destruct (expand_def tl false ps); reflexivity. Qed.
+  Lemma xp_param2 k : xp ps [hash_tok; hash_tok; other (48 + N.of_nat k)] [hash_tok; other (48 + N.of_nat k)].
+  Proof.
+    apply (xp_app ps [hash_tok; hash_tok] [hash_tok] [other (48 + N.of_nat k)] [other (48 + N.of_nat k)]); [apply xp_hash2|apply xp_tok, inert_other].
+  Qed.
+  Lemma xp_ptext2 i np : xp ps (flat_map (fun i => [hash_tok; hash_tok; other (48 + N.of_nat i)]) (seq i np))
+                               (flat_map (fun i => [hash_tok; other (48 + N.of_nat i)]) (seq i np)).
+  Proof. revert i. induction np as [|np IH]; intros i; [apply xp_nil|]. cbn [seq flat_map]. apply xp_app; [apply xp_param2|apply IH]. Qed.
+
+  (* expandDef (#k -> argument, ##k -> #k) and \def's own reduction (##k -> #k) are both homomorphisms of this kind *)
+  Definition XH (X : list tok -> list tok -> Prop) : Prop :=
+    X [] [] /\ (forall P P' Q Q', X P P' -> X Q Q' -> X (P ++ Q) (P' ++ Q')) /\ (forall t, inert t -> X [t] [t]) /\
+    (forall k, (1 <= k <= n)%nat -> X [hash_tok; other (48 + N.of_nat k)] (print (nth (k - 1) args []))) /\
+    (forall k, X [hash_tok; hash_tok; other (48 + N.of_nat k)] [hash_tok; other (48 + N.of_nat k)]).
+  Lemma XH_xp : XH (xp ps).
+  Proof.
+    split; [apply xp_nil|]. split; [apply xp_app|]. split; [apply xp_tok|]. split; [|apply xp_param2].
+    intros k Hk. apply xp_param. lia.
+  Qed.
+
+  Section Gen.
+  Context (X : list tok -> list tok -> Prop) (HX : XH X).
+  Lemma X_nil : X [] []. Proof. apply HX. Qed.
+  Lemma X_app P P' Q Q' : X P P' -> X Q Q' -> X (P ++ Q) (P' ++ Q'). Proof. apply HX. Qed.
+  Lemma X_tok t : inert t -> X [t] [t]. Proof. apply HX. Qed.
+  Lemma X_par k : (1 <= k <= n)%nat -> X [hash_tok; other (48 + N.of_nat k)] (print (nth (k - 1) args [])). Proof. apply HX. Qed.
+  Lemma X_par2 k : X [hash_tok; hash_tok; other (48 + N.of_nat k)] [hash_tok; other (48 + N.of_nat k)]. Proof. apply HX. Qed.
+  Lemma X_toks l : Forall inert l -> X l l.
+  Proof. induction 1 as [|t l Ht _ IH]; [apply X_nil|]. apply (X_app [t] [t] l l); [now apply X_tok|exact IH]. Qed.
+  Lemma X_cons t P P' : inert t -> X P P' -> X (t :: P) (t :: P').
+  Proof. intros Ht H. apply (X_app [t] [t] P P'); [now apply X_tok|exact H]. Qed.
+  Lemma X_ptext2 i np : X (flat_map (fun i => [hash_tok; hash_tok; other (48 + N.of_nat i)]) (seq i np))
+                          (flat_map (fun i => [hash_tok; other (48 + N.of_nat i)]) (seq i np)).
+  Proof. revert i. induction np as [|np IH]; intros i; [apply X_nil|]. cbn [seq flat_map]. apply X_app; [apply X_par2|apply IH]. Qed.
+
+  Definition QI (m d : nat) (x : node) : Prop := forall j D, (d <= j)%nat -> (d <= D)%nat ->
+    X (printb_node x) (printb (map (low1 j) (sbn d x))) /\ forallb (fun y => fb_node m y D) (map (low1 j) (sbn d x)) = true.
+
+  Lemma QI_list m l d : Forall (fun y => forall d, fi_node n m y d = true -> QI m d y) l ->
+    forallb (fun y => fi_node n m y d) l = true -> forall j D, (d <= j)%nat -> (d <= D)%nat ->
+    X (printb l) (printb (lower (S j) (subst (S d) args l))) /\
+    forallb (fun y => fb_node m y D) (lower (S j) (subst (S d) args l)) = true.
+  Proof.
+    intros IH H j D Hj HD. rewrite subst_S, lower_S. revert H.
+    induction IH as [|x l Hx _ IHl]; intros H; [split; [apply X_nil|reflexivity]|].
+    cbn [forallb] in H. apply andb_true_iff in H as [H1 H2]. destruct (Hx d H1 j D Hj HD) as [Hx1 Hx2]. destruct (IHl H2) as [IH1 IH2].
+    cbn [printb flat_map]. rewrite map_app, printb_app, forallb_app, Hx2, IH2. split; [now apply X_app|reflexivity].
+  Qed.
+
+  Lemma QI_all m : forall x d, fi_node n m x d = true -> QI m d x.
+  Proof.
+    apply (node_ind2 (fun x => forall d, fi_node n m x d = true -> QI m d x)).
+    - intros x Hs d H j D Hj HD. destruct x; try discriminate H; try discriminate Hs.
+      + split; [cbn [sbn map low1 printb]; rewrite app_nil_r; apply X_toks, inert_wprint|reflexivity].
+      + split; [|reflexivity]. cbn [sbn map low1 printb]. rewrite app_nil_r, printb_let. apply X_toks.
+        constructor; [apply inert_esc; cbv; congruence|]. constructor; [apply inert_mname|]. constructor; [apply inert_other|].
+        constructor; [apply inert_mname|constructor].
+      + cbn [fi_node] in H. apply andb_true_iff in H as [H1 H2]. apply Nat.leb_le in H1, H2. cbn [sbn].
+        rewrite <- lower_S, (lower_A _ _ (nth_args_A (k - 1))). split.
+        * rewrite printb_param, (printb_Al _ (nth_args_A (k - 1))). apply X_par. lia.
+        * apply fa_fbl, nth_args_A.
+      + cbn [fi_node] in H. split.
+        * cbn [sbn map low1 printb]. rewrite app_nil_r, printb_param. apply X_par2.
+        * cbn [sbn map low1 forallb fb_node]. now rewrite H.
+      + split; [|reflexivity]. cbn [sbn map low1 printb]. rewrite app_nil_r. apply X_tok, inert_esc.
+        unfold setname, sname. destruct b; cbn; congruence.
+      + split; [|reflexivity]. cbn [sbn map low1 printb]. rewrite app_nil_r. apply X_toks.
+        constructor; [apply inert_esc; cbv; congruence|]. constructor; [apply inert_esc; unfold ifname, sname; congruence|constructor].
+      + split; [|reflexivity]. cbn [sbn map low1 printb]. rewrite app_nil_r. apply X_toks.
+        constructor; [apply inert_esc; cbv; congruence|apply inert_cname_arg].
+      + split; [|reflexivity]. cbn [sbn map low1 printb]. rewrite app_nil_r. apply X_toks, inert_counter_cmd. cbv; congruence.
+      + split; [|reflexivity]. cbn [sbn map low1 printb]. rewrite app_nil_r. apply X_toks, inert_counter_cmd. cbv; congruence.
+    - intros b IH d H j D Hj HD. cbn [fi_node] in H. destruct d as [|d]; [discriminate H|].
+      destruct j as [|j]; [lia|]. destruct D as [|D]; [lia|].
+      destruct (QI_list m b d IH H j D ltac:(lia) ltac:(lia)) as [H1 H2]. split.
+      + cbn [sbn map low1 printb]. rewrite app_nil_r, !printb_group.
+        apply X_cons; [apply inert_bg|]. apply X_app; [exact H1|apply X_tok, inert_eg].
+      + cbn [sbn map low1 forallb]. rewrite andb_true_r. cbn [fb_node]. apply orb_true_iff. right. exact H2.
+    - intros g nm np dd b IH d H. discriminate H.
+    - intros nm o a IH d H j D Hj HD. cbn [fi_node] in H. apply andb_true_iff in H as [Ho H].
+      assert (Hopt : option_map (lower j) (option_map (subst d args) o) = o).
+      { destruct o as [ws|]; [|reflexivity]. cbn [option_map opt_ok] in *. f_equal.
+        rewrite (subst_A d args ws (words_fa ws Ho)). apply lower_A. now apply words_fa. }
+      assert (Hoi : Forall inert (opt_toksb o)) by (rewrite (opt_toksb_eq o Ho); now apply inert_opt).
+      assert (Ha : X (printb_args a) (printb_args (map (lower j) (map (subst d args) a))) /\
+                   forallb (fun arg => match D with O => false | S D' => forallb (fun y => fb_node m y D') arg end)
+                           (map (lower j) (map (subst d args) a)) = true).
+      { clear Ho Hopt Hoi. induction IH as [|arg a Harg _ IHa]; [split; [apply X_nil|reflexivity]|].
+        cbn [forallb] in H. apply andb_true_iff in H as [H1 H2]. destruct (IHa H2) as [I1 I2].
+        destruct d as [|d]; [discriminate H1|]. destruct j as [|j]; [lia|]. destruct D as [|D]; [lia|].
+        destruct (QI_list m arg d Harg H1 j D ltac:(lia) ltac:(lia)) as [Q1 Q2].
+        cbn [map printb_args forallb]. rewrite Q2, I2. split; [|reflexivity].
+        apply X_cons; [apply inert_bg|]. apply X_app; [exact Q1|]. apply X_cons; [apply inert_eg|exact I1]. }
+      destruct Ha as [A1 A2]. split.
+      + cbn [sbn map low1 printb]. rewrite Hopt, app_nil_r, !printb_call.
+        apply X_cons; [apply inert_mname|]. apply X_app; [now apply X_toks|exact A1].
+      + cbn [sbn map low1 forallb]. rewrite Hopt, andb_true_r. cbn [fb_node]. apply orb_true_iff. right. rewrite Ho. exact A2.
+    - intros t th el IHth IHel d H j D Hj HD. cbn [fi_node] in H. apply andb_true_iff in H as [Ht H]. destruct d as [|d]; [discriminate H|].
+      destruct j as [|j]; [lia|]. destruct D as [|D]; [lia|].
+      apply andb_true_iff in H as [Hth He]. destruct (QI_list m th d IHth Hth j D ltac:(lia) ltac:(lia)) as [T1 T2].
+      assert (E : X (else_partb el) (else_partb (option_map (lower (S j)) (option_map (subst (S d) args) el))) /\
+                  match option_map (lower (S j)) (option_map (subst (S d) args) el) with
+                  | Some e => forallb (fun y => fb_node m y D) e | None => true end = true).
+      { destruct el as [e|]; [|split; [apply X_nil|reflexivity]].
+        destruct (QI_list m e d (IHel e eq_refl) He j D ltac:(lia) ltac:(lia)) as [E1 E2].
+        cbn [option_map else_partb]. split; [|exact E2]. apply X_cons; [apply inert_esc; cbv; congruence|exact E1]. }
+      destruct E as [E1 E2]. split.
+      + cbn [sbn map low1 printb]. rewrite app_nil_r, !printb_cond. fold (else_partb el).
+        fold (else_partb (option_map (lower (S j)) (option_map (subst (S d) args) el))).
+        apply X_app; [apply X_toks, inert_test|]. apply X_app; [exact T1|].
+        apply X_app; [exact E1|apply X_tok, inert_esc; cbv; congruence].
+      + cbn [sbn map low1 forallb]. rewrite andb_true_r. cbn [fb_node]. apply orb_true_iff. right. rewrite Ht. cbn [andb].
+        apply andb_true_iff. split; [exact T2|exact E2].
+    - intros a bs el IHbs IHel d H j D Hj HD. cbn [fi_node] in H. apply andb_true_iff in H as [Hh H]. destruct d as [|d]; [discriminate H|].
+      destruct j as [|j]; [lia|]. destruct D as [|D]; [lia|].
+      apply andb_true_iff in H as [Hbs He]. destruct (case_head_inv _ _ Hh) as (b0 & r & -> & Ha).
+      inversion IHbs as [|x l IHb0 IHr]; subst. cbn [forallb] in Hbs. apply andb_true_iff in Hbs as [Hb0 Hr].
+      destruct (QI_list m b0 d IHb0 Hb0 j D ltac:(lia) ltac:(lia)) as [B1 B2].
+      assert (R : X (printb_ors r) (printb_ors (map (lower (S j)) (map (subst (S d) args) r))) /\
+                  forallb (forallb (fun y => fb_node m y D)) (map (lower (S j)) (map (subst (S d) args) r)) = true).
+      { clear -IHr Hr Hargs Hn9 Hj HD HX. induction IHr as [|b r Hb _ IHr']; [split; [apply X_nil|reflexivity]|].
+        cbn [forallb] in Hr. apply andb_true_iff in Hr as [H1 H2].
+        destruct (QI_list m b d Hb H1 j D ltac:(lia) ltac:(lia)) as [Q1 Q2]. destruct (IHr' H2) as [I1 I2].
+        cbn [map printb_ors forallb]. rewrite Q2, I2. split; [|reflexivity].
+        apply X_cons; [apply inert_esc; cbv; congruence|]. apply X_app; [exact Q1|exact I1]. }
+      destruct R as [R1 R2].
+      assert (E : X (else_partb el) (else_partb (option_map (lower (S j)) (option_map (subst (S d) args) el))) /\
+                  match option_map (lower (S j)) (option_map (subst (S d) args) el) with
+                  | Some e => forallb (fun y => fb_node m y D) e | None => true end = true).
+      { destruct el as [e|]; [|split; [apply X_nil|reflexivity]].
+        destruct (QI_list m e d (IHel e eq_refl) He j D ltac:(lia) ltac:(lia)) as [E1 E2].
+        cbn [option_map else_partb]. split; [|exact E2]. apply X_cons; [apply inert_esc; cbv; congruence|exact E1]. }
+      destruct E as [E1 E2]. split.
+      + cbn [sbn map low1 printb]. rewrite app_nil_r, !printb_case_node.
+        apply X_cons; [apply inert_esc; cbv; congruence|]. apply X_app; [apply X_toks, inert_pop|].
+        apply X_cons; [apply inert_esc; cbv; congruence|].
+        apply X_app; [exact B1|]. apply X_app; [exact R1|].
+        apply X_app; [exact E1|apply X_tok, inert_esc; cbv; congruence].
+      + cbn [sbn map low1 forallb]. rewrite andb_true_r. cbn [fb_node]. apply orb_true_iff. right.
+        cbn [case_head]. rewrite Ha. cbn [andb]. apply andb_true_iff. split; [|exact E2].
+        cbn [forallb]. apply andb_true_iff. split; [exact B2|exact R2].
+  Qed.
+
+  End Gen.
+
+  Definition Q3 (d : nat) (x : node) : Prop :=
+    xp ps (printb_node x) (print (sbn d x)) /\ forallb f2_node (sbn d x) = true.
+
+  Lemma Q3_list l d : Forall (fun y => forall d, (d <= BODY_DEPTH)%nat -> fb3_node n y d = true -> Q3 d y) l -> (d <= BODY_DEPTH)%nat ->
+    forallb (fun y => fb3_node n y d) l = true ->
+    xp ps (printb l) (print (subst (S d) args l)) /\ forallb f2_node (subst (S d) args l) = true.
+  Proof.
+    rewrite subst_S. intros IH Hd. induction IH as [|x l Hx _ IH]; intros H; [split; [apply xp_nil|reflexivity]|].
+    cbn [forallb] in H. apply andb_true_iff in H as [H1 H2]. destruct (Hx d Hd H1) as [Hx1 Hx2]. destruct (IH H2) as [IH1 IH2].
+    cbn [print printb flat_map]. rewrite print_app, forallb_app, Hx2, IH2. split; [now apply xp_app|reflexivity].
+  Qed.
+  Lemma Q3_fb x d : fb_node n x d = true -> Q3 d x.
+  Proof. intros H. destruct (Q_all x d H) as [H1 H2]. split; [rewrite (printb_fb n x d H); exact H1|now apply fa_f2l]. Qed.
+
+  Lemma fb_fb3l k l : forallb (fun y => fb_node k y BODY_DEPTH) l = true -> forallb (fun y => fb3_node k y BODY_DEPTH) l = true.
+  Proof. apply forallb_imp. apply Forall_forall. intros y _ Hy. rewrite fb3_unfold, Hy. reflexivity. Qed.
+
+  Lemma Q3_all : forall x d, (d <= BODY_DEPTH)%nat -> fb3_node n x d = true -> Q3 d x.
+  Proof.
+    apply (node_ind2 (fun x => forall d, (d <= BODY_DEPTH)%nat -> fb3_node n x d = true -> Q3 d x)).
+    - intros x Hs d Hd H. rewrite fb3_unfold in H. apply orb_true_iff in H as [H|H]; [exact (Q3_fb _ _ H)|].
+      destruct x; try discriminate H; discriminate Hs.
+    - intros b IH d Hd H. rewrite fb3_unfold in H. apply orb_true_iff in H as [H|H]; [exact (Q3_fb _ _ H)|].
+      destruct d as [|d]; [discriminate H|]. destruct (Q3_list b d IH ltac:(lia) H) as [H1 H2]. split.
+      + cbn [sbn print]. rewrite app_nil_r, printb_group, print_group.
+        apply xp_cons; [apply inert_bg|]. apply xp_app; [exact H1|apply xp_tok, inert_eg].
+      + cbn [sbn forallb f2_node]. rewrite andb_true_r. exact H2.
+    - intros g nm np dd b _ d Hd H. rewrite fb3_unfold in H. apply orb_true_iff in H as [H|H]; [exact (Q3_fb _ _ H)|].
+      apply andb_true_iff in H as [Hn1 H]. destruct d as [|d]; [discriminate H|]. unfold BODY_DEPTH in Hd. destruct dd as [dd|].
+      + apply andb_true_iff in H as [H Hb]. apply andb_true_iff in H as [H Hw]. apply andb_true_iff in H as [Hg H9].
+        destruct (QI_list (xp ps) XH_xp (S np) b d (proj2 (Forall_forall _ _) (fun y _ => QI_all (xp ps) XH_xp (S np) y)) Hb 49%nat BODY_DEPTH ltac:(lia) ltac:(unfold BODY_DEPTH; lia)) as [B1 B2].
+        unfold Q3. cbn [sbn option_map]. rewrite (subst_A (S d) args dd (words_fa dd Hw)). split.
+        * cbn [print]. rewrite app_nil_r, printb_newcommand, print_newcommand, (printb_words dd Hw).
+          apply xp_cons; [apply inert_esc; cbv; congruence|]. apply xp_cons; [apply inert_bg|]. apply xp_cons; [apply inert_mname|].
+          apply xp_cons; [apply inert_eg|]. apply xp_cons; [apply inert_other|].
+          apply xp_app; [apply xp_toks, Forall_map_tok, inert_other|].
+          apply xp_cons; [apply inert_other|]. apply xp_cons; [apply inert_other|].
+          apply xp_app; [apply xp_toks; now apply inert_words|].
+          apply xp_cons; [apply inert_other|]. apply xp_cons; [apply inert_bg|].
+          apply xp_app; [exact B1|apply xp_tok, inert_eg].
+        * cbn [forallb f2_node]. rewrite andb_true_r, Hg, H9, Hw. cbn [andb]. now apply fb_fb3l.
+      + apply andb_true_iff in H as [H Hb]. apply andb_true_iff in H as [H1 H9].
+        destruct (QI_list (xp ps) XH_xp np b d (proj2 (Forall_forall _ _) (fun y _ => QI_all (xp ps) XH_xp np y)) Hb 49%nat BODY_DEPTH ltac:(lia) ltac:(unfold BODY_DEPTH; lia)) as [B1 B2].
+        unfold Q3. cbn [sbn option_map]. split.
+        * cbn [print]. rewrite app_nil_r, printb_def, print_def.
+          apply xp_cons; [destruct g; apply inert_esc; cbv; congruence|]. apply xp_cons; [apply inert_mname|].
+          apply xp_app; [apply xp_ptext2|]. apply xp_cons; [apply inert_bg|].
+          apply xp_app; [exact B1|apply xp_tok, inert_eg].
+        * cbn [forallb f2_node]. rewrite andb_true_r, H9, H1. cbn [andb]. apply orb_true_iff. left. now apply fb_fb3l.
+    - intros nm o a _ d Hd H. rewrite fb3_unfold in H. apply orb_true_iff in H as [H|H]; [exact (Q3_fb _ _ H)|discriminate H].
+    - intros t th el IHth IHel d Hd H. rewrite fb3_unfold in H. apply orb_true_iff in H as [H|H]; [exact (Q3_fb _ _ H)|].
+      apply andb_true_iff in H as [Ht H]. destruct d as [|d]; [discriminate H|].
+      apply andb_true_iff in H as [Hth He]. destruct (Q3_list th d IHth ltac:(lia) Hth) as [T1 T2].
+      assert (E : xp ps (else_partb el) (else_part (option_map (subst (S d) args) el)) /\
+                  match option_map (subst (S d) args) el with Some e => forallb f2_node e | None => true end = true).
+      { destruct el as [e|]; [|split; [apply xp_nil|reflexivity]]. destruct (Q3_list e d (IHel e eq_refl) ltac:(lia) He) as [E1 E2].
+        cbn [option_map else_part else_partb]. split; [|exact E2]. apply xp_cons; [apply inert_esc; cbv; congruence|exact E1]. }
+      destruct E as [E1 E2]. unfold Q3. cbn [sbn]. split.
+      + cbn [print]. rewrite printb_cond, print_cond, app_nil_r. fold (else_partb el). fold (else_part (option_map (subst (S d) args) el)).
+        apply xp_app; [apply xp_toks, inert_test|]. apply xp_app; [exact T1|].
+        apply xp_app; [exact E1|apply xp_tok, inert_esc; cbv; congruence].
+      + cbn [forallb f2_node]. now rewrite Ht, T2, E2.
+    - intros a bs el IHbs IHel d Hd H. rewrite fb3_unfold in H. apply orb_true_iff in H as [H|H]; [exact (Q3_fb _ _ H)|].
+      apply andb_true_iff in H as [Hh H]. destruct d as [|d]; [discriminate H|].
+      apply andb_true_iff in H as [Hbs He]. destruct (case_head_inv _ _ Hh) as (b0 & r & -> & Ha).
+      inversion IHbs as [|x l IHb0 IHr]; subst. cbn [forallb] in Hbs. apply andb_true_iff in Hbs as [Hb0 Hr].
+      destruct (Q3_list b0 d IHb0 ltac:(lia) Hb0) as [B1 B2].
+      assert (R : xp ps (printb_ors r) (print_ors (map (subst (S d) args) r)) /\ forallb (forallb f2_node) (map (subst (S d) args) r) = true).
+      { clear -IHr Hr Hargs Hn9 Hd. induction IHr as [|b r Hb _ IHr']; [split; [apply xp_nil|reflexivity]|].
+        cbn [forallb] in Hr. apply andb_true_iff in Hr as [H1 H2].
+        destruct (Q3_list b d Hb ltac:(lia) H1) as [Q1 Q2]. destruct (IHr' H2) as [I1 I2].
+        cbn [map print_ors printb_ors forallb]. rewrite Q2, I2. split; [|reflexivity].
+        apply xp_cons; [apply inert_esc; cbv; congruence|]. apply xp_app; [exact Q1|exact I1]. }
+      destruct R as [R1 R2].
+      assert (E : xp ps (else_partb el) (else_part (option_map (subst (S d) args) el)) /\
+                  match option_map (subst (S d) args) el with Some e => forallb f2_node e | None => true end = true).
+      { destruct el as [e|]; [|split; [apply xp_nil|reflexivity]]. destruct (Q3_list e d (IHel e eq_refl) ltac:(lia) He) as [E1 E2].
+        cbn [option_map else_part else_partb]. split; [|exact E2]. apply xp_cons; [apply inert_esc; cbv; congruence|exact E1]. }
+      destruct E as [E1 E2]. unfold Q3, sbn. cbn [map]. split.
+      + cbn [print]. rewrite printb_case_node, print_case_node, app_nil_r.
+        apply xp_cons; [apply inert_esc; cbv; congruence|]. apply xp_app; [apply xp_toks, inert_pop|].
+        apply xp_cons; [apply inert_esc; cbv; congruence|].
+        apply xp_app; [exact B1|]. apply xp_app; [exact R1|].
+        apply xp_app; [exact E1|apply xp_tok, inert_esc; cbv; congruence].
+      + cbn [forallb f2_node case_head]. now rewrite Ha, B2, R2, E2.
+  Qed.
+
+  Lemma subst_print3 d b : (d <= BODY_DEPTH)%nat -> forallb (fun y => fb3_node n y d) b = true ->
+    expand_def (printb b) false ps = Some (print (subst (S d) args b)) /\ forallb f2_node (subst (S d) args b) = true.
+  Proof.
+    intros Hd H. destruct (Q3_list b d) as [H1 H2]; [apply Forall_forall; intros x _; apply Q3_all|exact Hd|exact H|].
+    split; [|exact H2]. specialize (H1 []). rewrite !app_nil_r in H1. rewrite H1. cbn [expand_def]. now rewrite app_nil_r.
+  Qed.
 End Subst.
+
+(* ---- \def's own reduction of ## (DefCommand: nested parameter text) on text printed in body mode ---- *)
+Definition rh (P P' : list tok) : Prop := forall tl acc, reduce_hashes (P ++ tl) O acc = reduce_hashes tl O (rev P' ++ acc).
+Lemma XH_rh : XH [] O rh.
+Proof.
+  split; [intros tl acc; reflexivity|]. split.
+  { intros P P' Q Q' HP HQ tl acc. rewrite <- app_assoc, HP, HQ, rev_app_distr, <- app_assoc. reflexivity. }
+  split.
+  { intros t [Ht _] tl acc. cbn [app reduce_hashes]. rewrite Ht. reflexivity. }
+  split; [intros k Hk; lia|].
+  intros k tl acc. cbn [app reduce_hashes]. change (is_param hash_tok) with true. cbn iota.
+  change (is_param (other (48 + N.of_nat k))) with false. cbn iota. reflexivity.
+Qed.
+
+(* a body without #k of an enclosing macro: substitution leaves it alone *)
+Lemma subst_fi0 args m k : forall l d, forallb (fun y => fi_node O m y d) l = true -> subst k args l = l.
+Proof.
+  induction k as [|k IH]; intros l d Hl; [reflexivity|]. cbn [subst].
+  induction l as [|x l IHl]; [reflexivity|]. cbn [forallb] in Hl. apply andb_true_iff in Hl as [Hx Hl].
+  cbn [flat_map]. rewrite (IHl Hl).
+  destruct x; try discriminate Hx; try reflexivity; cbn [fi_node] in Hx.
+  - destruct d as [|d]; [discriminate Hx|]. now rewrite (IH body d Hx).
+  - apply andb_true_iff in Hx as [Ho Ha].
+    assert (E : map (subst k args) args0 = args0).
+    { clear Ho. induction args0 as [|a0 r IHr]; [reflexivity|]. cbn [forallb] in Ha. apply andb_true_iff in Ha as [H1 H2].
+      cbn [map]. rewrite (IHr H2). destruct d as [|d]; [discriminate H1|]. now rewrite (IH a0 d H1). }
+    rewrite E. destruct opt as [o|]; [|reflexivity]. cbn [option_map opt_ok] in *. now rewrite (subst_A k args o (words_fa o Ho)).
+  - apply andb_true_iff in Hx as [H1 H2]. apply Nat.leb_le in H1, H2. lia.
+  - apply andb_true_iff in Hx as [_ Hx]. destruct d as [|d]; [discriminate Hx|]. apply andb_true_iff in Hx as [Hth He].
+    rewrite (IH thn d Hth). destruct els as [e|]; [|reflexivity]. cbn [option_map]. now rewrite (IH e d He).
+  - apply andb_true_iff in Hx as [_ Hx]. destruct d as [|d]; [discriminate Hx|]. apply andb_true_iff in Hx as [Hbs He].
+    assert (E : map (subst k args) branches = branches).
+    { clear -IH Hbs. induction branches as [|a0 r IHr]; [reflexivity|]. cbn [forallb] in Hbs. apply andb_true_iff in Hbs as [H1 H2].
+      cbn [map]. now rewrite (IHr H2), (IH a0 d H1). }
+    rewrite E. destruct els as [e|]; [|reflexivity]. cbn [option_map]. now rewrite (IH e d He).
+Qed.
+
+Lemma rh_printb np b : forallb (fun y => fi_node O np y BODY_DEPTH) b = true ->
+  reduce_hashes (printb b) O [] = printb (lower 50 b) /\ forallb (fun y => fb_node np y BODY_DEPTH) (lower 50 b) = true.
+Proof.
+  intros H.
+  destruct (QI_list [] O rh XH_rh np b BODY_DEPTH
+              (proj2 (Forall_forall _ _) (fun y _ => QI_all [] O (Forall_nil _) (Nat.le_0_l 9) rh XH_rh np y)) H 49%nat BODY_DEPTH (le_n _) (le_n _)) as [H1 H2].
+  rewrite (subst_fi0 [] np (S BODY_DEPTH) b BODY_DEPTH H) in H1, H2. split; [|exact H2].
+  specialize (H1 [] []). rewrite !app_nil_r in H1. rewrite H1. cbn [reduce_hashes]. apply rev_involutive.
+Qed.
+Lemma rh_ptext np : reduce_hashes (param_text2 np) O [] = param_text np.
+Proof.
+  pose proof (X_ptext2 [] O rh XH_rh 1 np [] []) as H. rewrite !app_nil_r in H. unfold param_text2, param_text. rewrite H.
+  cbn [reduce_hashes]. apply rev_involutive.
+Qed.
 
 (* ---- Definition.invoke on  #1..#n  and braced arguments ---- *)
 Definition ptext (i m : nat) : list tok := flat_map (fun i => [hash_tok; other (48 + N.of_nat i)]) (seq i m).
@@ -1919,46 +2737,21 @@ Proof.
 Qed.
 
 (* ---- stored meanings of F2 ---- *)
-Definition good2 (m : MacroLang.meaning) : Prop :=
+Definition good2c (m : MacroLang.meaning) : Prop :=
   match m_default m with
   | None => (m_n m <= 9)%nat /\
-      (forallb (fun y => fb_node (m_n m) y BODY_DEPTH) (m_body m) = true \/ (m_n m = O /\ forallb fa_node (m_body m) = true))
-  | Some d => (S (m_n m) <= 9)%nat /\ forallb is_word d = true /\ forallb (fun y => fb_node (S (m_n m)) y BODY_DEPTH) (m_body m) = true
+      (((1 <= m_n m)%nat /\ forallb (fun y => fb3_node (m_n m) y BODY_DEPTH) (m_body m) = true) \/ (m_n m = O /\ forallb fa_node (m_body m) = true))
+  | Some d => (S (m_n m) <= 9)%nat /\ forallb is_word d = true /\ forallb (fun y => fb3_node (S (m_n m)) y BODY_DEPTH) (m_body m) = true
   end.
-
-Lemma fb0_fa : forall x d, fb_node O x d = true -> fa_node x = true.
-Proof.
-  apply (node_ind2 (fun x => forall d, fb_node O x d = true -> fa_node x = true)).
-  - intros x Hs d H. destruct x; try discriminate H; try discriminate Hs; try reflexivity.
-    cbn [fb_node] in H. apply andb_true_iff in H as [H1 H2]. apply Nat.leb_le in H1, H2. lia.
-  - intros b IH d H. cbn [fb_node fa_node] in *. destruct d as [|d]; [discriminate H|].
-    apply (forallb_imp (fun y => fb_node O y d)); [|exact H]. eapply Forall_impl; [|exact IH]. intros y Hy. apply Hy.
-  - intros g nm np dd b IH d H. cbn [fb_node fa_node] in *. apply andb_true_iff in H as [H0 H]. rewrite H0. destruct d as [|d]; [discriminate H|].
-    apply (forallb_imp (fun y => fb_node O y d)); [|exact H]. eapply Forall_impl; [|exact IH]. intros y Hy. apply Hy.
-  - intros nm o a IH d H. cbn [fb_node fa_node] in *. apply andb_true_iff in H as [H0 H]. rewrite H0. cbn [andb].
-    clear H0. induction IH as [|arg a Harg _ IHa]; [reflexivity|]. cbn [forallb] in *. apply andb_true_iff in H as [H1 H2].
-    apply andb_true_iff. split; [|now apply IHa]. destruct d as [|d]; [discriminate H1|].
-    apply (forallb_imp (fun y => fb_node O y d)); [|exact H1]. eapply Forall_impl; [|exact Harg]. intros y Hy. apply Hy.
-  - intros t th el IHth IHel d H. cbn [fb_node fa_node] in *. apply andb_true_iff in H as [Ht H]. rewrite Ht. destruct d as [|d]; [discriminate H|].
-    apply andb_true_iff in H as [Hth He]. cbn [andb]. apply andb_true_iff. split.
-    + apply (forallb_imp (fun y => fb_node O y d)); [|exact Hth]. eapply Forall_impl; [|exact IHth]. intros y Hy. apply Hy.
-    + destruct el as [e|]; [|reflexivity]. apply (forallb_imp (fun y => fb_node O y d)); [|exact He].
-      eapply Forall_impl; [|exact (IHel e eq_refl)]. intros y Hy. apply Hy.
-  - intros a bs el IHbs IHel d H. cbn [fb_node fa_node] in *. apply andb_true_iff in H as [Hh H]. rewrite Hh. destruct d as [|d]; [discriminate H|].
-    apply andb_true_iff in H as [Hbs He]. cbn [andb]. apply andb_true_iff. split.
-    + apply (forallb2_imp (fun y => fb_node O y d)); [|exact Hbs].
-      apply (Forall2_inst (fun d x => fb_node O x d = true -> fa_node x = true)). exact IHbs.
-    + destruct el as [e|]; [|reflexivity]. apply (forallb_imp (fun y => fb_node O y d)); [|exact He].
-      eapply Forall_impl; [|exact (IHel e eq_refl)]. intros y Hy. apply Hy.
-Qed.
-Lemma fb0_fal d l : forallb (fun y => fb_node O y d) l = true -> forallb fa_node l = true.
-Proof. apply forallb_imp. apply Forall_forall. intros x _. apply fb0_fa. Qed.
+(* a parameterless \def whose body (handed back as it is) holds definitions with ##k *)
+Definition goodv (m : MacroLang.meaning) : Prop := m_default m = None /\ m_n m = O /\ forallb fv_node (m_body m) = true.
+Definition good2 (m : MacroLang.meaning) : Prop := good2c m \/ goodv m.
 
 Lemma good2_body_W m : good2 m -> forallb w_node (m_body m) = true.
 Proof.
-  unfold good2. destruct (m_default m).
-  - intros (_ & _ & H). now apply (fb_Wl (S (m_n m)) BODY_DEPTH).
-  - intros (_ & [H|[_ H]]); [now apply (fb_Wl (m_n m) BODY_DEPTH)|now apply fa_Wl].
+  intros [H|(_ & _ & H)]; [|now apply fv_Wl]. unfold good2c in H. destruct (m_default m).
+  - destruct H as (_ & _ & H). now apply (fb3_Wl (S (m_n m)) BODY_DEPTH).
+  - destruct H as (_ & [[_ H]|[_ H]]); [now apply (fb3_Wl (m_n m) BODY_DEPTH)|now apply fa_Wl].
 Qed.
 
 Section Unfold2.
@@ -2017,7 +2810,7 @@ Proof.
   destruct r as [|t r]; intros H; [reflexivity|]. destruct H as [H1 H2].
   unfold read_optional. cbn [read_optional_spaces]. rewrite H1. unfold read_grouping. now rewrite H2.
 Qed.
-Lemma safe_first x : w_node x = true -> exists t l, print_node x = t :: l /\ safe_tok t.
+Lemma safe_first x : f2_node x = true -> exists t l, print_node x = t :: l /\ safe_tok t.
 Proof.
   intros H. destruct x; try discriminate H.
   - eexists _, _. split; [reflexivity|split; reflexivity].
@@ -2027,15 +2820,15 @@ Proof.
     + eexists _, _. split; [apply print_def|split; destruct global; reflexivity].
   - eexists _, _. split; [apply print_let|split; reflexivity].
   - eexists _, _. split; [apply print_call|split; reflexivity].
-  - eexists _, _. split; [apply print_param|split; reflexivity].
-  - cbn [w_node] in H. apply andb_true_iff in H as [H _]. apply andb_true_iff in H as [Ht _].
+  - eexists _, _. split; [reflexivity|split; reflexivity].
+  - cbn [f2_node] in H. apply andb_true_iff in H as [H _]. apply andb_true_iff in H as [Ht _].
     rewrite print_cond. destruct t as [| |a r b|a| | | | |]; try discriminate Ht.
     + eexists _, _. split; [reflexivity|split; reflexivity].
     + eexists _, _. split; [reflexivity|split; reflexivity].
     + eexists _, _. split; [reflexivity|split; reflexivity].
     + eexists _, _. split; [reflexivity|split; reflexivity].
     + eexists _, _. split; [reflexivity|split; reflexivity].
-  - cbn [w_node] in H. apply andb_true_iff in H as [H _]. apply andb_true_iff in H as [Hh _].
+  - cbn [f2_node] in H. apply andb_true_iff in H as [H _]. apply andb_true_iff in H as [Hh _].
     destruct (case_head_inv _ _ Hh) as (b0 & r & -> & Ha).
     eexists _, _. split; [apply print_case_node|split; reflexivity].
   - eexists _, _. split; [reflexivity|split; destruct b; reflexivity].
@@ -2044,7 +2837,7 @@ Proof.
   - eexists _, _. split; [reflexivity|split; reflexivity].
   - eexists _, _. split; [reflexivity|split; reflexivity].
 Qed.
-Lemma safe_print ns r : forallb w_node ns = true -> safe_rest r -> safe_rest (print ns ++ r).
+Lemma safe_print ns r : forallb f2_node ns = true -> safe_rest r -> safe_rest (print ns ++ r).
 Proof.
   destruct ns as [|x ns]; intros H Hr; [exact Hr|]. cbn [forallb] in H. apply andb_true_iff in H as [Hx _].
   destruct (safe_first x Hx) as (t & l & E & Ht). cbn [print]. rewrite E. exact Ht.
@@ -2081,20 +2874,20 @@ Qed.
 (* ---- executing a call (with or without optional argument) ---- *)
 
 Lemma exec_call2 U B nm m o a r :
-  good2 m -> chain_get U B (mname nm) = Some (mean_of m) -> opt_ok o = true -> forallb (forallb fa_node) a = true ->
+  good2c m -> chain_get U B (mname nm) = Some (mean_of m) -> opt_ok o = true -> forallb (forallb fa_node) a = true ->
   length a = m_n m -> (match o, m_default m with Some _, None => false | _, _ => true end) = true -> safe_rest r ->
   exec (St (esc (mname nm) :: opt_toks o ++ print_args a ++ r) U B) [] (St (print (subst 50 (call_args m o a) (m_body m)) ++ r) U B) /\
-  forallb fa_node (subst 50 (call_args m o a) (m_body m)) = true.
+  forallb f2_node (subst 50 (call_args m o a) (m_body m)) = true.
 Proof.
   intros Hm Hlk Ho Ha Hlen Hom Hr. pose proof (forallb2_Forall _ _ Ha) as HaF.
   assert (Hdep : Forall (fun x => depth_after (print x) O = Some O) a).
   { eapply Forall_impl; [|exact HaF]. intros x Hx. apply depth_Wl. now apply fa_Wl. }
-  unfold good2 in Hm. unfold mean_of in Hlk. unfold call_args. destruct (m_default m) as [dflt|] eqn:Ed.
+  unfold good2c in Hm. unfold mean_of in Hlk. unfold call_args. destruct (m_default m) as [dflt|] eqn:Ed.
   - (* a \newcommand with optional argument *)
     destruct Hm as (Hn9 & Hdw & Hb).
     set (oa := match o with Some x => x | None => dflt end).
     assert (Hoa : forallb fa_node oa = true) by (subst oa; destruct o as [x|]; apply words_fa; [exact Ho|exact Hdw]).
-    destruct (subst_print (oa :: a) (S (m_n m)) (Forall_cons _ Hoa HaF) Hn9 BODY_DEPTH (m_body m) Hb) as [Hx HA].
+    destruct (subst_print3 (oa :: a) (S (m_n m)) (Forall_cons _ Hoa HaF) Hn9 BODY_DEPTH (m_body m) (le_n _) Hb) as [Hx HA].
     split; [|exact HA].
     eapply (ex_cont O); [|apply ex_refl].
     rewrite (step_macro _ _ (esc (mname nm)) (mname nm) _ _ _ _ eq_refl eq_refl Hlk). cbn [invoke input].
@@ -2111,16 +2904,16 @@ Proof.
     destruct (m_n m) as [|k] eqn:En.
     + (* no parameters: the definition is returned as it is *)
       destruct a; [|discriminate Hlen]. cbn [print_args app].
-      assert (HA : forallb fa_node (m_body m) = true) by (destruct Hbody as [H|[_ H]]; [now apply (fb0_fal BODY_DEPTH)|exact H]).
-      rewrite (subst_A 50 [] _ HA). split; [|exact HA].
+      assert (HA : forallb fa_node (m_body m) = true) by (destruct Hbody as [[H _]|[_ H]]; [lia|exact H]).
+      rewrite (subst_A 50 [] _ HA). rewrite (printb_Al _ HA) in Hlk. split; [|now apply fa_f2l].
       eapply (ex_cont O); [|apply ex_refl].
       rewrite (step_macro _ _ (esc (mname nm)) (mname nm) _ _ _ _ eq_refl eq_refl Hlk). reflexivity.
-    + destruct Hbody as [Hb|[H0 _]]; [|discriminate H0].
-      destruct (subst_print a (S k) HaF ltac:(lia) BODY_DEPTH (m_body m) Hb) as [Hx HA].
+    + destruct Hbody as [[_ Hb]|[H0 _]]; [|discriminate H0].
+      destruct (subst_print3 a (S k) HaF ltac:(lia) BODY_DEPTH (m_body m) (le_n _) Hb) as [Hx HA].
       split; [|exact HA].
       eapply (ex_cont O); [|apply ex_refl].
       rewrite (step_macro _ _ (esc (mname nm)) (mname nm) _ _ _ _ eq_refl eq_refl Hlk). cbn [invoke input].
-      rewrite (definition_invoke_params (S k) (print (m_body m)) a r ltac:(lia) Hlen Hdep), Hx. reflexivity.
+      rewrite (definition_invoke_params (S k) (printb (m_body m)) a r ltac:(lia) Hlen Hdep), Hx. reflexivity.
 Qed.
 
 (* ---- \newcommand{\zq..}[n+1][default]{body} ---- *)
@@ -2218,7 +3011,68 @@ Section Unfold3.
     gsafe f e1 out (case_branch (opval e1 a) bs el) &&
     match eval f e1 out (case_branch (opval e1 a) bs el) with Ok e' out' => gsafe f e' out' rest | _ => true end.
   Proof. cbn [gsafe]. now rewrite Hs. Qed.
+  Lemma eval_expandafter a b : eval (S f) e out (NExpandAfter a b :: rest) =
+    match lookup_frames a (frames e1), lookup_frames b (frames e1) with
+    | Some ma, Some mb =>
+        match m_n mb, m_default mb, m_default ma with
+        | O, None, None =>
+            match take_groups (m_n ma) (subst 50 [] (m_body mb)) [] with
+            | Some (args, after) =>
+                match eval f e1 out (NCall a None args :: after) with Ok e' out' => eval f e' out' rest | other => other end
+            | None => Stuck 3
+            end
+        | _, _, _ => Stuck 3
+        end
+    | _, _ => Stuck 1
+    end.
+  Proof. cbn [eval]. rewrite Hs. reflexivity. Qed.
+  Lemma gsafe_expandafter a b : gsafe (S f) e out (NExpandAfter a b :: rest) =
+    match lookup_frames a (frames e1), lookup_frames b (frames e1) with
+    | Some ma, Some mb =>
+        match m_n mb, m_default mb, m_default ma with
+        | O, None, None =>
+            forallb fa_node (m_body mb) && (match m_body mb with [] => false | _ => true end) &&
+            match take_groups (m_n ma) (subst 50 [] (m_body mb)) [] with
+            | Some (args, after) =>
+                gsafe f e1 out (NCall a None args :: after) &&
+                match eval f e1 out (NCall a None args :: after) with Ok e' out' => gsafe f e' out' rest | _ => true end
+            | None => true
+            end
+        | _, _, _ => true
+        end
+    | _, _ => true
+    end.
+  Proof. cbn [gsafe]. rewrite Hs. reflexivity. Qed.
 End Unfold3.
+
+(* ---- \expandafter\a\b with \b a parameterless \def of non-empty body ---- *)
+Lemma print_args_app a b : print_args (a ++ b) = print_args a ++ print_args b.
+Proof.
+  induction a as [|x a IH]; [reflexivity|]. cbn [app print_args]. rewrite IH. cbn [app]. f_equal. rewrite <- app_assoc. reflexivity.
+Qed.
+Lemma take_print k : forall l acc args after, take_groups k l acc = Some (args, after) -> forallb fa_node l = true ->
+  Forall (fun a => forallb fa_node a = true) acc ->
+  print_args (rev acc) ++ print l = print_args args ++ print after /\ Forall (fun a => forallb fa_node a = true) args /\ forallb fa_node after = true.
+Proof.
+  induction k as [|k IH]; intros l acc args after Ht Hl Hacc.
+  - cbn [take_groups] in Ht. injection Ht as <- <-. split; [reflexivity|]. split; [now apply Forall_rev|exact Hl].
+  - cbn [take_groups] in Ht. destruct l as [|x l]; [discriminate Ht|]. destruct x; try discriminate Ht.
+    cbn [forallb fa_node] in Hl. apply andb_true_iff in Hl as [Hg Hl].
+    destruct (IH l (body :: acc) args after Ht Hl (Forall_cons _ Hg Hacc)) as (E & HA & HB). split; [|split; assumption].
+    rewrite <- E. cbn [rev print]. rewrite print_args_app, print_group. cbn [print_args]. rewrite <- !app_assoc. reflexivity.
+Qed.
+Lemma Forall_forallb2 {A} (p : A -> bool) ll : Forall (fun l => forallb p l = true) ll -> forallb (forallb p) ll = true.
+Proof. induction 1 as [|l ll Hl _ IH]; [reflexivity|]. cbn [forallb]. now rewrite Hl, IH. Qed.
+
+Lemma exec_expandafter G fs U B a b body r : Rfg G fs U B -> chain_get U B (mname b) = Some (MDef [] body) -> body <> [] ->
+  exec (St (esc s_expandafter :: esc (mname a) :: esc (mname b) :: r) U B) [] (St (esc (mname a) :: body ++ r) U B).
+Proof.
+  intros HR Hlk Hne. eapply (ex_cont O); [|apply ex_refl].
+  rewrite (step_macro _ _ _ s_expandafter (MPrim PExpandafter)); [|reflexivity|reflexivity|apply (prim_lookupg G fs); [exact HR|not_mname|reflexivity]].
+  cbn [invoke]. unfold expandafter_invoke. cbn [input]. change (is_elem (esc (mname b))) with false. cbn iota.
+  change (tcat (esc (mname b)) =? CC_ESCAPE) with true. cbn iota. unfold getitem, lookup, set_input. cbn [ups bottom input ttext esc]. rewrite Hlk.
+  destruct body; [contradiction|]. reflexivity.
+Qed.
 
 Fixpoint fin (r : list (list node)) (c : list tok) (cs : list (list tok)) : list (list tok) * list tok :=
   match r with [] => (cs, c) | b :: r' => fin r' (print b) (cs ++ [c]) end.
@@ -2757,6 +3611,66 @@ Proof.
 Qed.
 End ExecG2.
 
+(* ---- the body of a parameterless \def, handed back as it is: words and definitions whose ##k \def itself reduces ---- *)
+Lemma simV f : forall src e out e' out',
+  forallb fv_node src = true -> eval f e out (subst 50 [] src) = Ok e' out' -> gsafe f e out (subst 50 [] src) = true ->
+  forall U B rest, Rfg good2 (frames e) U B -> Heap e B ->
+  exists T U' B',
+    exec (St (printb src ++ rest) U B) T (St rest U' B') /\ Rfg good2 (frames e') U' B' /\ Heap e' B' /\ length U' = length U /\
+    words_text (rev out') = words_text (rev out) ++ text_of T.
+Proof.
+  induction f as [|f IH]; intros src e out e' out' HF Hev Hgs U B rest HR HS; [discriminate Hev|].
+  destruct src as [|n src].
+  { change (subst 50 [] []) with (@nil node) in Hev. rewrite eval_nil in Hev. injection Hev as <- <-. exists [], U, B.
+    repeat split; [apply ex_refl|exact HR|exact (proj1 HS)|exact (proj2 HS)|now rewrite app_nil_r]. }
+  cbn [forallb] in HF. apply andb_true_iff in HF as [Hn Hns].
+  assert (Esub : subst 50 [] (n :: src) = sbn [] 49 n ++ subst 50 [] src) by (rewrite (subst_S [] 49 (n :: src)), (subst_S [] 49 src); reflexivity).
+  rewrite Esub in Hev, Hgs. clear Esub.
+  cbn [printb]. rewrite <- app_assoc.
+  destruct n; try discriminate Hn.
+  - (* word *)
+    cbn [sbn app] in Hev, Hgs.
+    destruct (eval_budget f e out _ _ _ Hev) as [Hno|(budget & Hs)]; [exfalso; now apply (Hno e' out')|].
+    assert (HR1 : Rfg good2 (frames (tick e budget)) U B) by exact HR.
+    rewrite (eval_word f e out _ budget Hs) in Hev. rewrite (gsafe_word f e out _ budget Hs) in Hgs.
+    destruct (IH _ _ _ _ _ Hns Hev Hgs U B rest HR1 HS) as (T & U' & B' & Hex & HR' & HS' & Hlen & Htxt).
+    exists (wprint w ++ T), U', B'. repeat split; [|exact HR'|exact (proj1 HS')|exact (proj2 HS')|exact Hlen|].
+    + eapply exec_trans; [apply exec_plain, plain_wprint|exact Hex].
+    + rewrite Htxt, words_text_snoc, text_of_app, (text_of_plain _ (plain_wprint w)). now rewrite app_assoc.
+  - (* a definition with ##k *)
+    destruct default; [discriminate Hn|]. cbn [fv_node] in Hn. apply andb_true_iff in Hn as [Hn Hb]. apply andb_true_iff in Hn as [H1 H9].
+    apply Nat.leb_le in H1, H9.
+    cbn [sbn option_map app] in Hev, Hgs. rewrite (subst_fi0 [] nparams 49 body BODY_DEPTH Hb) in Hev, Hgs.
+    destruct (rh_printb nparams body Hb) as [Erh Hfb]. remember (lower 50 body) as body' eqn:Ebody'.
+    destruct (eval_budget f e out _ _ _ Hev) as [Hno|(budget & Hs)]; [exfalso; now apply (Hno e' out')|].
+    assert (HR1 : Rfg good2 (frames (tick e budget)) U B) by exact HR.
+    rewrite (eval_def f e out _ budget Hs) in Hev. rewrite (gsafe_def f e out _ budget Hs) in Hgs.
+    apply andb_true_iff in Hgs as [Hun Hg2].
+    set (m := {| m_n := nparams; m_default := None; m_body := body' |}) in *.
+    assert (Hm : good2 m).
+    { left. unfold good2c. cbn [m_default m m_n m_body]. split; [exact H9|]. left. split; [exact H1|]. now apply fb_fb3l. }
+    rewrite printb_def. cbn [app]. repeat (rewrite <- app_assoc; cbn [app]).
+    pose proof (exec_def2 good2 _ U B global name nparams (printb body) (printb src ++ rest) HR1 H1
+                  (depth_Wlb _ (fi_Wl _ _ _ _ Hb) O)) as Hex0. cbv zeta in Hex0.
+    rewrite Erh, rh_ptext in Hex0.
+    change (MDef (param_text nparams) (printb body')) with (mean_of m) in Hex0.
+    set (st := (if global then add_global else add_local) (mname name) (mean_of m) (St (printb src ++ rest) U B)) in *.
+    assert (Hst : exists U0 B0, st = St (printb src ++ rest) U0 B0 /\ length U0 = length U /\
+                   Rfg good2 ((if global then def_global else def_local) name m (frames (tick e budget))) U0 B0 /\ Heap e B0).
+    { subst st. destruct global.
+      - exists U, ((mname name, mean_of m) :: B). split; [reflexivity|]. split; [reflexivity|].
+        split; [now apply Rfg_def_global|now apply Heap_add_mname].
+      - pose proof (Rfg_def_local good2 _ U B name m Hm HR1) as Hl. cbv zeta in Hl.
+        unfold add_local in *. cbn [ups] in *. destruct U as [|u U]; cbn [ups bottom set_ups set_bottom add_global input] in *.
+        + eexists [], _. split; [reflexivity|]. split; [reflexivity|]. split; [exact Hl|now apply Heap_add_mname].
+        + eexists (_ :: U), B. split; [reflexivity|]. split; [reflexivity|]. split; [exact Hl|exact HS]. }
+    destruct Hst as (U0 & B0 & Est & Hlen0 & HR0 & HS0). rewrite Est in Hex0.
+    destruct (IH _ _ _ _ _ Hns Hev Hg2 U0 B0 rest HR0 HS0) as (T & U' & B' & Hex & HR' & HS' & Hlen & Htxt).
+    exists ([prim_elem (PDef global)] ++ T), U', B'. repeat split; [|exact HR'|exact (proj1 HS')|exact (proj2 HS')|lia|].
+    + eapply exec_trans; [exact Hex0|exact Hex].
+    + rewrite Htxt, text_of_app. replace (text_of [prim_elem (PDef global)]) with (@nil tok) by (destruct global; reflexivity). reflexivity.
+Qed.
+
 (* ---- the simulation on F2 ---- *)
 Lemma sim2 f : forall e out ns e' out',
   forallb f2_node ns = true -> eval f e out ns = Ok e' out' -> gsafe f e out ns = true ->
@@ -2804,14 +3718,14 @@ Proof.
     { (* \newcommand{\name}[n+1][dd]{body}: global *)
       apply andb_true_iff in Hn as [Hn Hbody]. apply andb_true_iff in Hn as [Hn Hdw]. apply andb_true_iff in Hn as [Hgl Hnp].
       subst global. apply Nat.leb_le in Hnp.
-      assert (Hm : good2 m) by (unfold good2; cbn [m_default m m_n m_body]; repeat split; assumption).
+      assert (Hm : good2 m) by (left; unfold good2c; cbn [m_default m m_n m_body]; repeat split; assumption).
       rewrite print_newcommand. cbn [app]. repeat (rewrite <- app_assoc; cbn [app]).
       assert (Hnoprim : match chain_get U B (mname name) with Some (MDef _ _) | Some (MNew _ _ _) | None => True | _ => False end).
       { rewrite (Rfg_lookup good2 _ _ _ name HR1). destruct (lookup_frames name (frames (tick e budget))) as [m0|]; [|exact I].
         cbn [option_map]. unfold mean_of. destruct (m_default m0); exact I. }
-      pose proof (exec_newcommand good2 _ U B name nparams dd (print body) (print ns ++ rest) HR1 Hnp Hdw
-                    (depth_Wl _ (good2_body_W m Hm) O) Hnoprim) as Hex0.
-      change (MNew (S nparams) (Some (print dd)) (print body)) with (mean_of m) in Hex0.
+      pose proof (exec_newcommand good2 _ U B name nparams dd (printb body) (print ns ++ rest) HR1 Hnp Hdw
+                    (depth_Wlb _ (good2_body_W m Hm) O) Hnoprim) as Hex0.
+      change (MNew (S nparams) (Some (print dd)) (printb body)) with (mean_of m) in Hex0.
       pose proof (Rfg_def_global good2 _ U B name m Hm Hun HR1) as HR0.
       destruct (IH _ _ _ _ _ Hns Hev Hg2 U _ rest HR0 (Heap_add_mname _ _ name (mean_of m) HS) Hsafe) as (T & U' & B' & Hex & HR' & HS' & Hlen & Htxt).
       exists ([prim_elem (PNewcommand false)] ++ T), U', B'. repeat split; [|exact HR'|exact (proj1 HS')|exact (proj2 HS')|exact Hlen|].
@@ -2819,12 +3733,16 @@ Proof.
       + rewrite Htxt, text_of_app. reflexivity. }
     apply andb_true_iff in Hn as [Hnp Hbody]. apply Nat.leb_le in Hnp.
     assert (Hm : good2 m).
-    { unfold good2. cbn [m_default m m_n m_body]. split; [exact Hnp|]. apply orb_true_iff in Hbody as [Hb|Hb]; [now left|].
-      apply andb_true_iff in Hb as [H0 Hb]. apply Nat.eqb_eq in H0. right. now split. }
+    { apply orb_true_iff in Hbody as [Hb|Hb].
+      - left. unfold good2c. cbn [m_default m m_n m_body]. split; [exact Hnp|].
+        apply andb_true_iff in Hb as [H1 Hb]. apply Nat.leb_le in H1. left. now split.
+      - apply andb_true_iff in Hb as [H0 Hb]. apply Nat.eqb_eq in H0. apply orb_true_iff in Hb as [Hb|Hb].
+        + left. unfold good2c. cbn [m_default m m_n m_body]. split; [exact Hnp|]. right. now split.
+        + right. unfold goodv. cbn [m_default m m_n m_body]. now repeat split. }
     rewrite print_def. cbn [app]. repeat (rewrite <- app_assoc; cbn [app]).
-    pose proof (exec_def good2 _ U B global name nparams (print body) (print ns ++ rest) HR1
-                  (depth_Wl _ (good2_body_W m Hm) O)) as Hex0. cbv zeta in Hex0.
-    change (MDef (param_text nparams) (print body)) with (mean_of m) in Hex0.
+    pose proof (exec_def good2 _ U B global name nparams (printb body) (print ns ++ rest) HR1
+                  (depth_Wlb _ (good2_body_W m Hm) O)) as Hex0. cbv zeta in Hex0.
+    change (MDef (param_text nparams) (printb body)) with (mean_of m) in Hex0.
     set (st := (if global then add_global else add_local) (mname name) (mean_of m) (St (print ns ++ rest) U B)) in *.
     assert (Hst : exists U0 B0, st = St (print ns ++ rest) U0 B0 /\ length U0 = length U /\
                    Rfg good2 ((if global then def_global else def_local) name m (frames (tick e budget))) U0 B0 /\ Heap e B0).
@@ -2872,12 +3790,49 @@ Proof.
     destruct (eval f (tick e budget) out (subst 50 (call_args m opt args) (m_body m))) as [e2 out2| |] eqn:Eb; try discriminate Hev.
     rewrite print_call. cbn [app]. rewrite <- app_assoc.
     assert (Hlk : chain_get U B (mname name) = Some (mean_of m)) by (rewrite (Rfg_lookup good2 _ _ _ name HR1), El; reflexivity).
-    assert (Hsafe' : safe_rest (print ns ++ rest)) by (apply safe_print; [now apply f2_Wl|exact Hsafe]).
+    assert (Hsafe' : safe_rest (print ns ++ rest)) by (apply safe_print; [exact Hns|exact Hsafe]).
+    destruct Hm as [Hm|(Ed & En & Hv)].
+    2: { (* a parameterless \def handing back a body with ##k: the definitions there are made by \def's own reduction *)
+      destruct opt as [x|]; [rewrite Ed in Hom; discriminate Hom|]. rewrite En in Elen. destruct args; [|discriminate Elen].
+      unfold call_args in Eb, Hg1. rewrite Ed in Eb, Hg1. unfold mean_of in Hlk. rewrite Ed, En in Hlk.
+      cbn [opt_toks print_args app].
+      destruct (simV f (m_body m) _ _ _ _ Hv Eb Hg1 U B (print ns ++ rest) HR1 HS) as (T1 & U1 & B1 & Hex1 & HR1' & HS1 & Hlen1 & Htxt1).
+      destruct (IH _ _ _ _ _ Hns Hev Hg2 U1 B1 rest HR1' HS1 Hsafe) as (T2 & U2 & B2 & Hex2 & HR2' & HS2 & Hlen2 & Htxt2).
+      exists (T1 ++ T2), U2, B2. repeat split; [|exact HR2'|exact (proj1 HS2)|exact (proj2 HS2)|lia|].
+      + eapply (exec_trans _ []); [apply (exec_call U B name (printb (m_body m)) _ Hlk)|]. eapply exec_trans; [exact Hex1|exact Hex2].
+      + rewrite Htxt2, Htxt1, text_of_app. now rewrite app_assoc. }
     destruct (exec_call2 U B name m opt args (print ns ++ rest) Hm Hlk Ho Ha Elen Hom Hsafe') as [Hex0 HA].
-    destruct (IH _ _ _ _ _ (fa_f2l _ HA) Eb Hg1 U B (print ns ++ rest) HR1 HS Hsafe') as (T1 & U1 & B1 & Hex1 & HR1' & HS1 & Hlen1 & Htxt1).
+    destruct (IH _ _ _ _ _ HA Eb Hg1 U B (print ns ++ rest) HR1 HS Hsafe') as (T1 & U1 & B1 & Hex1 & HR1' & HS1 & Hlen1 & Htxt1).
     destruct (IH _ _ _ _ _ Hns Hev Hg2 U1 B1 rest HR1' HS1 Hsafe) as (T2 & U2 & B2 & Hex2 & HR2' & HS2 & Hlen2 & Htxt2).
     exists (T1 ++ T2), U2, B2. repeat split; [|exact HR2'|exact (proj1 HS2)|exact (proj2 HS2)|lia|].
     + eapply (exec_trans _ []); [exact Hex0|]. eapply exec_trans; [exact Hex1|exact Hex2].
+    + rewrite Htxt2, Htxt1, text_of_app. now rewrite app_assoc.
+  - (* \expandafter\a\b *)
+    rewrite (eval_expandafter f e out ns budget Hs) in Hev. rewrite (gsafe_expandafter f e out ns budget Hs) in Hgs.
+    destruct (lookup_frames a (frames (tick e budget))) as [ma|] eqn:Ea; [|discriminate Hev].
+    destruct (lookup_frames b (frames (tick e budget))) as [mb|] eqn:Eb0; [|discriminate Hev].
+    destruct (m_n mb) as [|k0] eqn:Enb; [|discriminate Hev]. destruct (m_default mb) eqn:Edb; [discriminate Hev|].
+    destruct (m_default ma) eqn:Eda; [discriminate Hev|].
+    apply andb_true_iff in Hgs as [Hg0 Hgs]. apply andb_true_iff in Hg0 as [Hfa Hne].
+    rewrite (subst_A 50 [] _ Hfa) in Hev, Hgs.
+    destruct (take_groups (m_n ma) (m_body mb) []) as [[args after]|] eqn:Et; [|discriminate Hev].
+    apply andb_true_iff in Hgs as [Hg1 Hg2].
+    destruct (eval f (tick e budget) out (NCall a None args :: after)) as [e2 out2| |] eqn:Eb; try discriminate Hev.
+    destruct (take_print _ _ _ _ _ Et Hfa (Forall_nil _)) as (Eprint & Hargs & Hafter). cbn [rev print_args app] in Eprint.
+    assert (Hlk : chain_get U B (mname b) = Some (MDef [] (print (m_body mb)))).
+    { rewrite (Rfg_lookup good2 _ _ _ b HR1), Eb0. cbn [option_map]. unfold mean_of. rewrite Edb, Enb, (printb_Al _ Hfa). reflexivity. }
+    assert (Hne' : print (m_body mb) <> []).
+    { destruct (m_body mb) as [|x l]; [discriminate Hne|]. cbn [forallb] in Hfa. apply andb_true_iff in Hfa as [Hx _].
+      destruct (safe_first x (fa_f2 x Hx)) as (t0 & l' & E & _). cbn [print]. rewrite E. discriminate. }
+    assert (HF' : forallb f2_node (NCall a None args :: after) = true).
+    { cbn [forallb f2_node opt_ok]. rewrite (Forall_forallb2 _ _ Hargs). cbn [andb]. now apply fa_f2l. }
+    destruct (IH _ _ _ _ _ HF' Eb Hg1 U B (print ns ++ rest) HR1 HS (safe_print _ _ Hns Hsafe)) as (T1 & U1 & B1 & Hex1 & HR1' & HS1 & Hlen1 & Htxt1).
+    destruct (IH _ _ _ _ _ Hns Hev Hg2 U1 B1 rest HR1' HS1 Hsafe) as (T2 & U2 & B2 & Hex2 & HR2' & HS2 & Hlen2 & Htxt2).
+    exists (T1 ++ T2), U2, B2. repeat split; [|exact HR2'|exact (proj1 HS2)|exact (proj2 HS2)|lia|].
+    + cbn [print_node app]. eapply (exec_trans _ []); [apply (exec_expandafter good2 _ U B a b _ _ HR1 Hlk Hne')|].
+      replace (esc (mname a) :: print (m_body mb) ++ print ns ++ rest) with (print (NCall a None args :: after) ++ print ns ++ rest).
+      2: { cbn [print]. rewrite print_call, Eprint. cbn [opt_toks app]. now rewrite <- !app_assoc. }
+      eapply exec_trans; [exact Hex1|exact Hex2].
     + rewrite Htxt2, Htxt1, text_of_app. now rewrite app_assoc.
   - (* conditional *)
     cbn [f2_node] in Hn. apply andb_true_iff in Hn as [Hn Hel]. apply andb_true_iff in Hn as [Ht Hth].
@@ -2901,7 +3856,7 @@ Proof.
                                       (fun e0 He0 => walks_Wl _ (f2_Wl _ (Hel' e0 He0)))). }
     destruct Hex0' as (Xt & X & HX & HXe & Hex0).
     assert (Hbr : forallb f2_node br = true) by (subst br; destruct (eval_test (tick e budget) t); [exact Hth|destruct els as [x|]; [now apply Hel'|reflexivity]]).
-    destruct (IH _ _ _ _ _ Hbr Eb Hg1 U B (print ns ++ rest) HR1 HS (safe_print _ _ (f2_Wl _ Hns) Hsafe)) as (T1 & U1 & B1 & Hex1 & HR1' & HS1 & Hlen1 & Htxt1).
+    destruct (IH _ _ _ _ _ Hbr Eb Hg1 U B (print ns ++ rest) HR1 HS (safe_print _ _ Hns Hsafe)) as (T1 & U1 & B1 & Hex1 & HR1' & HS1 & Hlen1 & Htxt1).
     destruct (IH _ _ _ _ _ Hns Hev Hg2 U1 B1 rest HR1' HS1 Hsafe) as (T2 & U2 & B2 & Hex2 & HR2' & HS2 & Hlen2 & Htxt2).
     exists ((if eval_test (tick e budget) t then X else []) ++ T1 ++ T2), U2, B2. repeat split; [|exact HR2'|exact (proj1 HS2)|exact (proj2 HS2)|lia|].
     + eapply (exec_trans _ []); [exact Hex0|]. subst br. destruct (eval_test (tick e budget) t).
@@ -2929,7 +3884,7 @@ Proof.
     { subst br. unfold case_branch. destruct ((0 <=? z) && (z <? Z.of_nat (length (b0 :: r))))%Z.
       - generalize (Z.to_nat z). clear -HbsF. induction HbsF as [|b l Hb _ IHl]; intros [|k]; try reflexivity; [exact Hb|apply IHl].
       - destruct els as [x|]; [now apply Hel'|reflexivity]. }
-    destruct (IH _ _ _ _ _ Hbr Eb Hg1 U B (print ns ++ rest) HR1 HS (safe_print _ _ (f2_Wl _ Hns) Hsafe)) as (T1 & U1 & B1 & Hex1 & HR1' & HS1 & Hlen1 & Htxt1).
+    destruct (IH _ _ _ _ _ Hbr Eb Hg1 U B (print ns ++ rest) HR1 HS (safe_print _ _ Hns Hsafe)) as (T1 & U1 & B1 & Hex1 & HR1' & HS1 & Hlen1 & Htxt1).
     destruct (IH _ _ _ _ _ Hns Hev Hg2 U1 B1 rest HR1' HS1 Hsafe) as (T2 & U2 & B2 & Hex2 & HR2' & HS2 & Hlen2 & Htxt2).
     exists (X ++ T1 ++ T2), U2, B2. repeat split; [|exact HR2'|exact (proj1 HS2)|exact (proj2 HS2)|lia|].
     + eapply (exec_trans _ []); [exact Hex0|]. eapply exec_trans; [apply HXe|eapply exec_trans; [exact Hex1|exact Hex2]].
@@ -3029,6 +3984,17 @@ Proof.
   exists fuel', (St [] [] B'), T. split; [exact (Hrun [])|]. split; [cbn in Htxt; now rewrite Htxt|]. split; [reflexivity|].
   destruct HR as (mfs & mg & E & HF2 & HB & _). inversion HF2; subst. rewrite E. cbn [app last bottom]. exact HB.
 Qed.
+
+(* F3: nested definitions with parameters of their own (##k); in_F3 = in_F2 since [f2_node] covers them *)
+Theorem engine_simulates_F3 fuel p e out :
+  in_F3 p = true -> den fuel p = Ok e out -> gdef_safe fuel p = true ->
+  exists fuel' st' T,
+    run fuel' (init (print p)) [] = Done st' T /\
+    text_of T = words_text (rev out) /\
+    ups st' = [] /\
+    (forall id, findm (mname id) (bottom st') = option_map mean_of (alookup id (last (frames e) []))) /\
+    (forall k, (forall id, k <> mname id) -> swkey k = false -> findm k (bottom st') = findm k base_frame).
+Proof. exact (engine_simulates_F2 fuel p e out). Qed.
 
 (* ============================================================================================== *)
 (* Engine frames refine Model/Context.v (C04): for every injective coding of macro names by numbers *)
